@@ -386,6 +386,10 @@ theorem lsum_replicate (f : CPc → Int) (pc : CPc) (hf : f pc = 0) : ∀ n, lsu
   | 0 => rfl
   | n + 1 => by simp [List.replicate_succ, lsum, hf, lsum_replicate f pc hf n]
 
+theorem lsum_nonneg {f : CPc → Int} (hf : ∀ pc, 0 ≤ f pc) : ∀ l, 0 ≤ lsum f l
+  | [] => Int.le_refl _
+  | pc :: l => by have := hf pc; have := lsum_nonneg hf l; simp only [lsum]; omega
+
 /-- `β 0 + … + β (n - 1)` -/
 def sumTo (β : Nat → Int) : Nat → Int
   | 0 => 0
@@ -532,84 +536,1460 @@ theorem cframe_mgetNext {b b0 : BState} {i : Nat} {ks : List Nat} {acc : List (O
   · exact ⟨_, ⟨by simp [setClient, hcl], hw, hsw, hcfg, hnow, hadm, hsh, hwk⟩, Or.inr ⟨k, rest, rfl⟩⟩
 
 
-/-- what a client action does to the command queue, the acknowledgement cells and the key-id counter -/
+/-- what a client action does to the command queue and the acknowledgement cells -/
 inductive QEff (b b' : BState) (pc : CPc) : Prop where
-  | none : b'.g.queue = b.g.queue → b'.g.acks = b.g.acks → b'.g.nextId = b.g.nextId → QEff b b' pc
-  | spot (st : Status) : b'.g.queue = b.g.queue → b'.g.acks = b.g.acks ++ [st] → b'.g.nextId = b.g.nextId → QEff b b' pc
+  | none : b'.g.queue = b.g.queue → b'.g.acks = b.g.acks → QEff b b' pc
+  | spot (st : Status) : b'.g.queue = b.g.queue → b'.g.acks = b.g.acks ++ [st] →
+      st = .rejected .keyAlreadyExists ∨ st = .accepted → QEff b b' pc
   | send (cmd : Cmd) : pc = .send cmd → b.g.worker ≠ .dead → b'.g.queue = b.g.queue ++ [(cmd, some b.g.acks.length)] →
-      b'.g.acks = b.g.acks ++ [.pending] → b'.g.nextId = b.g.nextId → QEff b b' pc
-  | idNext (k v : Nat) (w : Int) (ttl : Option Nat) : pc = .idNext k v w ttl → b'.g.queue = b.g.queue →
-      b'.g.acks = b.g.acks → b'.g.nextId = b.g.nextId + 1 → QEff b b' pc
-
-theorem qeff_upAfterIndex {b b0 : BState} {i id : Nat} {uw : Option Int} {pc : CPc} (hq : b0.g.queue = b.g.queue)
-    (ha : b0.g.acks = b.g.acks) (hn : b0.g.nextId = b.g.nextId) : QEff b (upAfterIndex b0 i id uw) pc := by
-  rcases upAfterIndex_cases b0 i id uw with ⟨p, w, _, e⟩ | ⟨w, hu, hpos, e⟩ | ⟨_, e⟩ <;> rw [e]
-  · exact .none hq ha hn
-  · exact .none hq ha hn
-  · exact .spot .accepted hq (by simp [spotFinish, finishCall, ha]) hn
-
-theorem qeff_mgetNext {b b0 : BState} {i : Nat} {ks : List Nat} {acc : List (Option Nat)} {iter : Bool} {pc : CPc}
-    (hq : b0.g.queue = b.g.queue) (ha : b0.g.acks = b.g.acks) (hn : b0.g.nextId = b.g.nextId) :
-    QEff b (mgetNext b0 i ks acc iter) pc := by
-  rcases mgetNext_spec b0 i ks acc iter with ⟨out, e⟩ | ⟨k, rest, _, _, e⟩ <;> rw [e]
-  · exact .none hq ha hn
-  · exact .none hq ha hn
+      b'.g.acks = b.g.acks ++ [.pending] → QEff b b' pc
 
 theorem pool_fields {g g1 : State} (hg : g1 = { g with pool := g1.pool, bufq := g1.bufq, stats := g1.stats }) :
     g1.cfg = g.cfg ∧ g1.now = g.now ∧ g1.adm = g.adm ∧ g1.shutting = g.shutting ∧ g1.worker = g.worker ∧
     g1.queue = g.queue ∧ g1.acks = g.acks ∧ g1.nextId = g.nextId ∧ g1.store = g.store ∧ g1.ttl = g.ttl := by
   refine ⟨?_, ?_, ?_, ?_, ?_, ?_, ?_, ?_, ?_, ?_⟩ <;> rw [hg]
 
+/-- the call of client `i` returns `out` -/
+def Ret (b b' : BState) (i : Nat) (out : Out) : Prop := b'.res = b.res.set i (out :: b.res.getD i [])
+
+/-- the tail of `put_or_update`: the positions from which `upAfterIndex` runs, with the key id and the weight carried -/
+def CPc.tail? : CPc → Option (Nat × Option Int)
+  | .upWeightOf id uw old new => if typeOfExpiryUpdate old new = .nothing then some (id, uw) else none
+  | .upTtlPut id _ uw | .upTtlDelete id _ uw | .upTtlInsert id _ uw => some (id, uw)
+  | _ => none
+
+/-- One action of a client outside `shutdown()`, as a relation between its position before and after, with the
+    conditions read from the state and the result recorded when the call returns. -/
+inductive PcStep (b b' : BState) (i : Nat) : CPc → CPc → Prop where
+  | startPutBad (k v w ttl) : w ≤ 0 → Ret b b' i (.panic .weightNotPositive) → PcStep b b' i (.start (.putW k v w ttl)) .idle
+  | startPut (k v w ttl) : 0 < w → PcStep b b' i (.start (.putW k v w ttl)) (.putPresent k v w ttl)
+  | startDelete (k) : PcStep b b' i (.start (.delete k)) (.delMark k)
+  | startGet (k) : PcStep b b' i (.start (.get k)) (.getStore k)
+  | startWeight : PcStep b b' i (.start .weight) .weightRead
+  | startUpsert (k v w ttl rm) : PcStep b b' i (.start (.upsert k v w ttl rm)) (.upUpdate k v w ttl rm)
+  | startGetRef (k) : PcStep b b' i (.start (.getRef k)) (.refStore k)
+  | startMgetFin (ks iter out) : Ret b b' i out → PcStep b b' i (.start (.mget ks iter)) .idle
+  | startMgetGo (ks iter k rest) : ks = k :: rest → PcStep b b' i (.start (.mget ks iter)) (.mgetStore k rest [] iter)
+  | putPresentHit (k v w ttl) : b.g.store.contains k = true →
+      Ret b b' i (.ack b.g.acks.length (.rejected .keyAlreadyExists)) → b'.g.queue = b.g.queue →
+      b'.g.acks = b.g.acks ++ [.rejected .keyAlreadyExists] → PcStep b b' i (.putPresent k v w ttl) .idle
+  | putPresentOk (k v w ttl) : b.g.store.contains k = false → PcStep b b' i (.putPresent k v w ttl) (.idNext k v w ttl)
+  | idNext (k v w ttl) : b'.g.nextId = b.g.nextId + 1 → PcStep b b' i (.idNext k v w ttl)
+      (.send (match ttl with
+        | some t => Cmd.putTtl b.g.nextId (b.g.cfg.hashOf k) w k v t
+        | none => Cmd.put b.g.nextId (b.g.cfg.hashOf k) w k v))
+  | sendDead (cmd) : b.g.worker = .dead → Ret b b' i .err → PcStep b b' i (.send cmd) .idle
+  | sendOk (cmd) : b.g.worker ≠ .dead → Ret b b' i (.ack b.g.acks.length .pending) →
+      b'.g.queue = b.g.queue ++ [(cmd, some b.g.acks.length)] → b'.g.acks = b.g.acks ++ [.pending] →
+      PcStep b b' i (.send cmd) .idle
+  | delMark (k) : PcStep b b' i (.delMark k) (.send (.delete k))
+  | getMiss (k) : (∀ e, b.g.store.get? k = some e → e.alive b.g.now = false) → Ret b b' i (.value none) →
+      PcStep b b' i (.getStore k) .idle
+  | getHit (k e) : b.g.store.get? k = some e → e.alive b.g.now = true → PcStep b b' i (.getStore k) (.getPool k e.value)
+  | getPool (k v) : Ret b b' i (.value (some v)) → PcStep b b' i (.getPool k v) .idle
+  | mgetMissFin (k ks acc iter out) : (∀ e, b.g.store.get? k = some e → e.alive b.g.now = false) → Ret b b' i out →
+      PcStep b b' i (.mgetStore k ks acc iter) .idle
+  | mgetMissGo (k ks acc iter k' rest) : (∀ e, b.g.store.get? k = some e → e.alive b.g.now = false) → ks = k' :: rest →
+      PcStep b b' i (.mgetStore k ks acc iter) (.mgetStore k' rest (acc ++ [none]) iter)
+  | mgetHit (k ks acc iter e) : b.g.store.get? k = some e → e.alive b.g.now = true →
+      PcStep b b' i (.mgetStore k ks acc iter) (.mgetPool k e.value ks acc iter)
+  | mgetPoolFin (k v ks acc iter out) : Ret b b' i out → PcStep b b' i (.mgetPool k v ks acc iter) .idle
+  | mgetPoolGo (k v ks acc iter k' rest) : ks = k' :: rest →
+      PcStep b b' i (.mgetPool k v ks acc iter) (.mgetStore k' rest (acc ++ [some v]) iter)
+  | weightRead : Ret b b' i (.weight b.g.adm.used) → PcStep b b' i .weightRead .idle
+  | upAbsentPut (k v w ttl rm val weight) : b.g.store.get? k = none → v = some val →
+      upsertW b.g.cfg v w ttl = some weight → 0 < weight → PcStep b b' i (.upUpdate k v w ttl rm) (.idNext k val weight ttl)
+  | upAbsentPanic (k v w ttl rm p) : b.g.store.get? k = none → Ret b b' i (.panic p) →
+      PcStep b b' i (.upUpdate k v w ttl rm) .idle
+  | upOverflow (k v w ttl rm e) : b.g.store.get? k = some e → upExpiry b.g.now ttl rm e.expiry = none →
+      Ret b b' i (.panic .timeOverflow) → PcStep b b' i (.upUpdate k v w ttl rm) .idle
+  | upFound (k v w ttl rm e exp) : b.g.store.get? k = some e → upExpiry b.g.now ttl rm e.expiry = some exp →
+      PcStep b b' i (.upUpdate k v w ttl rm) (.upWeightOf e.id (upsertW b.g.cfg v w ttl) e.expiry exp)
+  | upWAdded (id uw n) : PcStep b b' i (.upWeightOf id uw none (some n)) (.upTtlPut id n (deriveAdd b id uw))
+  | upWDeleted (id uw e) : PcStep b b' i (.upWeightOf id uw (some e) none) (.upTtlDelete id e (deriveDel b id uw))
+  | upWUpdated (id uw e n) : e ≠ n → PcStep b b' i (.upWeightOf id uw (some e) (some n)) (.upTtlRemove id e n uw)
+  | upTtlRemove (id old new uw) : PcStep b b' i (.upTtlRemove id old new uw) (.upTtlInsert id new uw)
+  | tailPanic (pc id w p) : pc.tail? = some (id, some w) → Ret b b' i (.panic p) → PcStep b b' i pc .idle
+  | tailSend (pc id w) : pc.tail? = some (id, some w) → 0 < w → PcStep b b' i pc (.send (.updateWeight id w))
+  | tailSpot (pc id) : pc.tail? = some (id, none) → Ret b b' i (.ack b.g.acks.length .accepted) →
+      b'.g.queue = b.g.queue → b'.g.acks = b.g.acks ++ [.accepted] → PcStep b b' i pc .idle
+  | refMiss (k) : (∀ e, b.g.store.get? k = some e → e.alive b.g.now = false) → Ret b b' i (.value none) →
+      PcStep b b' i (.refStore k) .idle
+  | refHit (k e) : b.g.store.get? k = some e → e.alive b.g.now = true → PcStep b b' i (.refStore k) (.refPool k e.value)
+  | refPool (k v) : Ret b b' i (.value (some v)) → PcStep b b' i (.refPool k v) .idle
+
+/-- the tail of `put_or_update`, as a `PcStep` -/
+theorem pcstep_upAfterIndex {b b0 : BState} {i id : Nat} {uw : Option Int} {pc : CPc} (hcl : b0.cl = b.cl) (hw : b0.w = b.w)
+    (hsw : b0.sw = b.sw) (hcfg : b0.g.cfg = b.g.cfg) (hnow : b0.g.now = b.g.now) (hadm : b0.g.adm = b.g.adm)
+    (hsh : b0.g.shutting = b.g.shutting) (hwk : b0.g.worker = b.g.worker) (hq : b0.g.queue = b.g.queue)
+    (ha : b0.g.acks = b.g.acks) (hn : b0.g.nextId = b.g.nextId) (hres : b0.res = b.res) (ht : pc.tail? = some (id, uw)) :
+    ∃ pc', CFrame b (upAfterIndex b0 i id uw) i pc' ∧ QEff b (upAfterIndex b0 i id uw) pc ∧ pc'.shutPos = false ∧
+      PcStep b (upAfterIndex b0 i id uw) i pc pc' ∧ (pc' ≠ .idle → (upAfterIndex b0 i id uw).res = b.res) ∧
+      (upAfterIndex b0 i id uw).g.nextId = b.g.nextId := by
+  rcases upAfterIndex_cases b0 i id uw with ⟨p, w, hu, e⟩ | ⟨w, hu, hpos, e⟩ | ⟨hu, e⟩ <;> rw [e]
+  · exact ⟨.idle, ⟨by simp [finishCall, hcl], hw, hsw, hcfg, hnow, hadm, hsh, hwk⟩, .none hq ha, rfl,
+      .tailPanic pc id w p (by rw [ht, hu]) (by simp [Ret, finishCall, hres]), fun h => absurd rfl h, hn⟩
+  · exact ⟨_, ⟨by simp [setClient, hcl], hw, hsw, hcfg, hnow, hadm, hsh, hwk⟩, .none hq ha, rfl,
+      .tailSend pc id w (by rw [ht, hu]) hpos, fun _ => hres, hn⟩
+  · exact ⟨.idle, ⟨by simp [spotFinish, finishCall, hcl], hw, hsw, hcfg, hnow, hadm, hsh, hwk⟩,
+      .spot .accepted hq (by simp [spotFinish, finishCall, ha]) (Or.inr rfl), rfl,
+      .tailSpot pc id (by rw [ht, hu]) (by simp [Ret, spotFinish, finishCall, hres, ha]) hq
+        (by simp [spotFinish, finishCall, ha]), fun h => absurd rfl h, hn⟩
+
 /-- **one client action outside `shutdown()`**: the client's old and new position, the frame, the queue effect -/
 theorem cact_frame {b b' : BState} {i : Nat} (h : CAct b i b') (hsh : b.g.shutting = false)
     (hns : ∀ pc, b.cl[i]? = some pc → pc.shutPos = false) :
-    ∃ pc pc', b.cl[i]? = some pc ∧ CFrame b b' i pc' ∧ QEff b b' pc := by
+    ∃ pc pc', b.cl[i]? = some pc ∧ CFrame b b' i pc' ∧ QEff b b' pc ∧ pc'.shutPos = false ∧ PcStep b b' i pc pc' ∧
+      (pc' ≠ .idle → b'.res = b.res) ∧ ((∀ k v w ttl, pc ≠ .idNext k v w ttl) → b'.g.nextId = b.g.nextId) := by
+  have F : ∀ {b0 : BState} {pc' : CPc}, b0.cl = b.cl.set i pc' → b0.w = b.w → b0.sw = b.sw → b0.g.cfg = b.g.cfg →
+      b0.g.now = b.g.now → b0.g.adm = b.g.adm → b0.g.shutting = b.g.shutting → b0.g.worker = b.g.worker →
+      CFrame b b0 i pc' := fun h1 h2 h3 h4 h5 h6 h7 h8 => ⟨h1, h2, h3, h4, h5, h6, h7, h8⟩
   cases h
   case shutting r hpc hs => rw [hsh] at hs; cases hs
   case shut pc hpc hs => rw [hns pc hpc] at hs; cases hs
   case startMget ks iter hpc _ =>
-    obtain ⟨pc', hf, _⟩ := cframe_mgetNext (b := b) (b0 := b) (i := i) (ks := ks) (acc := []) (iter := iter)
-      rfl rfl rfl rfl rfl rfl rfl rfl
-    exact ⟨_, pc', hpc, hf, qeff_mgetNext rfl rfl rfl⟩
-  case mgetMiss k ks acc iter st hpc _ =>
-    obtain ⟨pc', hf, _⟩ := cframe_mgetNext (b := b) (b0 := { b with g := { b.g with stats := st } }) (i := i) (ks := ks)
-      (acc := acc ++ [none]) (iter := iter) rfl rfl rfl rfl rfl rfl rfl rfl
-    exact ⟨_, pc', hpc, hf, qeff_mgetNext rfl rfl rfl⟩
+    rcases mgetNext_spec b i ks [] iter with ⟨out, e⟩ | ⟨k, rest, hk, _, e⟩ <;> rw [e]
+    · exact ⟨_, .idle, hpc, F rfl rfl rfl rfl rfl rfl rfl rfl, .none rfl rfl, rfl, .startMgetFin ks iter out rfl,
+        fun h => absurd rfl h, fun _ => rfl⟩
+    · exact ⟨_, _, hpc, F rfl rfl rfl rfl rfl rfl rfl rfl, .none rfl rfl, rfl, .startMgetGo ks iter k rest hk,
+        fun _ => rfl, fun _ => rfl⟩
+  case mgetMiss k ks acc iter st hpc hm =>
+    rcases mgetNext_spec { b with g := { b.g with stats := st } } i ks (acc ++ [none]) iter with
+      ⟨out, e⟩ | ⟨k', rest, hk, _, e⟩ <;> rw [e]
+    · exact ⟨_, .idle, hpc, F rfl rfl rfl rfl rfl rfl rfl rfl, .none rfl rfl, rfl,
+        .mgetMissFin k ks acc iter out hm rfl, fun h => absurd rfl h, fun _ => rfl⟩
+    · exact ⟨_, _, hpc, F rfl rfl rfl rfl rfl rfl rfl rfl, .none rfl rfl, rfl,
+        .mgetMissGo k ks acc iter k' rest hm hk, fun _ => rfl, fun _ => rfl⟩
   case mgetPool k v ks acc iter g1 hpc hg =>
-    obtain ⟨pc', hf, _⟩ := cframe_mgetNext (b := b) (b0 := { b with g := g1 }) (i := i) (ks := ks)
-      (acc := acc ++ [some v]) (iter := iter) rfl rfl rfl (pool_fields hg).1 (pool_fields hg).2.1 (pool_fields hg).2.2.1
-      (pool_fields hg).2.2.2.1 (pool_fields hg).2.2.2.2.1
-    exact ⟨_, pc', hpc, hf, qeff_mgetNext (pool_fields hg).2.2.2.2.2.1 (pool_fields hg).2.2.2.2.2.2.1
-      (pool_fields hg).2.2.2.2.2.2.2.1⟩
-  case upWNothing id uw old new hpc _ =>
-    obtain ⟨pc', hf, _⟩ := cframe_upAfterIndex (b := b) (b0 := b) (i := i) (id := id) (uw := uw)
-      rfl rfl rfl rfl rfl rfl rfl rfl
-    exact ⟨_, pc', hpc, hf, qeff_upAfterIndex rfl rfl rfl⟩
+    obtain ⟨h1, h2, h3, h4, h5, h6, h7, h8, _, _⟩ := pool_fields hg
+    rcases mgetNext_spec { b with g := g1 } i ks (acc ++ [some v]) iter with ⟨out, e⟩ | ⟨k', rest, hk, _, e⟩ <;> rw [e]
+    · exact ⟨_, .idle, hpc, F rfl rfl rfl h1 h2 h3 h4 h5, .none h6 h7, rfl,
+        .mgetPoolFin k v ks acc iter out rfl, fun h => absurd rfl h, fun _ => h8⟩
+    · exact ⟨_, _, hpc, F rfl rfl rfl h1 h2 h3 h4 h5, .none h6 h7, rfl,
+        .mgetPoolGo k v ks acc iter k' rest hk, fun _ => rfl, fun _ => h8⟩
+  case upWNothing id uw old new hpc hty =>
+    obtain ⟨pc', h1, h2, h3, h4, h5, h6⟩ := pcstep_upAfterIndex (b := b) (b0 := b) (i := i) (id := id) (uw := uw)
+      (pc := .upWeightOf id uw old new) rfl rfl rfl rfl rfl rfl rfl rfl rfl rfl rfl rfl (by simp [CPc.tail?, hty])
+    exact ⟨_, pc', hpc, h1, h2, h3, h4, h5, fun _ => h6⟩
   case upTtlPut id e uw hpc =>
-    obtain ⟨pc', hf, _⟩ := cframe_upAfterIndex (b := b) (b0 := { b with g := ttlPut b.g id e }) (i := i) (id := id) (uw := uw)
-      rfl rfl rfl rfl rfl rfl rfl rfl
-    exact ⟨_, pc', hpc, hf, qeff_upAfterIndex rfl rfl rfl⟩
+    obtain ⟨pc', h1, h2, h3, h4, h5, h6⟩ := pcstep_upAfterIndex (b := b) (b0 := { b with g := ttlPut b.g id e }) (i := i)
+      (id := id) (uw := uw) (pc := .upTtlPut id e uw) rfl rfl rfl rfl rfl rfl rfl rfl rfl rfl rfl rfl rfl
+    exact ⟨_, pc', hpc, h1, h2, h3, h4, h5, fun _ => h6⟩
   case upTtlDelete id e uw hpc =>
-    obtain ⟨pc', hf, _⟩ := cframe_upAfterIndex (b := b) (b0 := { b with g := ttlDelete b.g id e }) (i := i) (id := id) (uw := uw)
-      rfl rfl rfl rfl rfl rfl rfl rfl
-    exact ⟨_, pc', hpc, hf, qeff_upAfterIndex rfl rfl rfl⟩
+    obtain ⟨pc', h1, h2, h3, h4, h5, h6⟩ := pcstep_upAfterIndex (b := b) (b0 := { b with g := ttlDelete b.g id e }) (i := i)
+      (id := id) (uw := uw) (pc := .upTtlDelete id e uw) rfl rfl rfl rfl rfl rfl rfl rfl rfl rfl rfl rfl rfl
+    exact ⟨_, pc', hpc, h1, h2, h3, h4, h5, fun _ => h6⟩
   case upTtlInsert id new uw hpc =>
-    obtain ⟨pc', hf, _⟩ := cframe_upAfterIndex (b := b) (b0 := { b with g := ttlPut b.g id new }) (i := i) (id := id) (uw := uw)
-      rfl rfl rfl rfl rfl rfl rfl rfl
-    exact ⟨_, pc', hpc, hf, qeff_upAfterIndex rfl rfl rfl⟩
+    obtain ⟨pc', h1, h2, h3, h4, h5, h6⟩ := pcstep_upAfterIndex (b := b) (b0 := { b with g := ttlPut b.g id new }) (i := i)
+      (id := id) (uw := uw) (pc := .upTtlInsert id new uw) rfl rfl rfl rfl rfl rfl rfl rfl rfl rfl rfl rfl rfl
+    exact ⟨_, pc', hpc, h1, h2, h3, h4, h5, fun _ => h6⟩
   case getPool k v g1 hpc hg =>
     obtain ⟨h1, h2, h3, h4, h5, h6, h7, h8, _, _⟩ := pool_fields hg
-    exact ⟨_, .idle, hpc, ⟨rfl, rfl, rfl, h1, h2, h3, h4, h5⟩, .none h6 h7 h8⟩
+    exact ⟨_, .idle, hpc, F rfl rfl rfl h1 h2 h3 h4 h5, .none h6 h7, rfl, .getPool k v rfl, fun h => absurd rfl h, fun _ => h8⟩
   case refPool k v g1 hpc hg =>
     obtain ⟨h1, h2, h3, h4, h5, h6, h7, h8, _, _⟩ := pool_fields hg
-    exact ⟨_, .idle, hpc, ⟨rfl, rfl, rfl, h1, h2, h3, h4, h5⟩, .none h6 h7 h8⟩
-  case putPresentHit k v w ttl hpc _ =>
-    exact ⟨_, .idle, hpc, ⟨rfl, rfl, rfl, rfl, rfl, rfl, rfl, rfl⟩, .spot _ rfl rfl rfl⟩
+    exact ⟨_, .idle, hpc, F rfl rfl rfl h1 h2 h3 h4 h5, .none h6 h7, rfl, .refPool k v rfl, fun h => absurd rfl h, fun _ => h8⟩
+  case putPresentHit k v w ttl hpc hc =>
+    exact ⟨_, .idle, hpc, F rfl rfl rfl rfl rfl rfl rfl rfl, .spot _ rfl rfl (Or.inl rfl), rfl, .putPresentHit k v w ttl hc rfl rfl rfl,
+      fun h => absurd rfl h, fun _ => rfl⟩
   case idNext k v w ttl hpc =>
-    exact ⟨_, _, hpc, ⟨rfl, rfl, rfl, rfl, rfl, rfl, rfl, rfl⟩, .idNext k v w ttl rfl rfl rfl rfl⟩
+    exact ⟨_, _, hpc, F rfl rfl rfl rfl rfl rfl rfl rfl, .none rfl rfl, by cases ttl <;> rfl,
+      .idNext k v w ttl rfl, fun _ => rfl, fun h => absurd rfl (h k v w ttl)⟩
   case sendOk cmd hpc hw =>
-    exact ⟨_, .idle, hpc, ⟨rfl, rfl, rfl, rfl, rfl, rfl, rfl, rfl⟩, .send cmd rfl hw rfl rfl rfl⟩
-  all_goals exact ⟨_, _, ‹b.cl[i]? = some _›, ⟨rfl, rfl, rfl, rfl, rfl, rfl, rfl, rfl⟩, .none rfl rfl rfl⟩
+    exact ⟨_, .idle, hpc, F rfl rfl rfl rfl rfl rfl rfl rfl, .send cmd rfl hw rfl rfl, rfl, .sendOk cmd hw rfl rfl rfl,
+      fun h => absurd rfl h, fun _ => rfl⟩
+  case startPutBad k v w ttl hpc _ hw =>
+    exact ⟨_, .idle, hpc, F rfl rfl rfl rfl rfl rfl rfl rfl, .none rfl rfl, rfl, .startPutBad k v w ttl hw rfl,
+      fun h => absurd rfl h, fun _ => rfl⟩
+  case startPut k v w ttl hpc _ hw =>
+    exact ⟨_, _, hpc, F rfl rfl rfl rfl rfl rfl rfl rfl, .none rfl rfl, rfl, .startPut k v w ttl hw, fun _ => rfl, fun _ => rfl⟩
+  case startDelete k hpc _ =>
+    exact ⟨_, _, hpc, F rfl rfl rfl rfl rfl rfl rfl rfl, .none rfl rfl, rfl, .startDelete k, fun _ => rfl, fun _ => rfl⟩
+  case startGet k hpc _ =>
+    exact ⟨_, _, hpc, F rfl rfl rfl rfl rfl rfl rfl rfl, .none rfl rfl, rfl, .startGet k, fun _ => rfl, fun _ => rfl⟩
+  case startWeight hpc _ =>
+    exact ⟨_, _, hpc, F rfl rfl rfl rfl rfl rfl rfl rfl, .none rfl rfl, rfl, .startWeight, fun _ => rfl, fun _ => rfl⟩
+  case startUpsert k v w ttl rm hpc _ =>
+    exact ⟨_, _, hpc, F rfl rfl rfl rfl rfl rfl rfl rfl, .none rfl rfl, rfl, .startUpsert k v w ttl rm, fun _ => rfl, fun _ => rfl⟩
+  case startGetRef k hpc _ =>
+    exact ⟨_, _, hpc, F rfl rfl rfl rfl rfl rfl rfl rfl, .none rfl rfl, rfl, .startGetRef k, fun _ => rfl, fun _ => rfl⟩
+  case putPresentOk k v w ttl hpc hc =>
+    exact ⟨_, _, hpc, F rfl rfl rfl rfl rfl rfl rfl rfl, .none rfl rfl, rfl, .putPresentOk k v w ttl hc, fun _ => rfl, fun _ => rfl⟩
+  case sendDead cmd hpc hw =>
+    exact ⟨_, .idle, hpc, F rfl rfl rfl rfl rfl rfl rfl rfl, .none rfl rfl, rfl, .sendDead cmd hw rfl,
+      fun h => absurd rfl h, fun _ => rfl⟩
+  case delMark k hpc =>
+    exact ⟨_, _, hpc, F rfl rfl rfl rfl rfl rfl rfl rfl, .none rfl rfl, rfl, .delMark k, fun _ => rfl, fun _ => rfl⟩
+  case getMiss k st hpc hm =>
+    exact ⟨_, .idle, hpc, F rfl rfl rfl rfl rfl rfl rfl rfl, .none rfl rfl, rfl, .getMiss k hm rfl,
+      fun h => absurd rfl h, fun _ => rfl⟩
+  case getHit k e hpc he hal =>
+    exact ⟨_, _, hpc, F rfl rfl rfl rfl rfl rfl rfl rfl, .none rfl rfl, rfl, .getHit k e he hal, fun _ => rfl, fun _ => rfl⟩
+  case mgetHit k ks acc iter e hpc he hal =>
+    exact ⟨_, _, hpc, F rfl rfl rfl rfl rfl rfl rfl rfl, .none rfl rfl, rfl, .mgetHit k ks acc iter e he hal,
+      fun _ => rfl, fun _ => rfl⟩
+  case weightRead hpc =>
+    exact ⟨_, .idle, hpc, F rfl rfl rfl rfl rfl rfl rfl rfl, .none rfl rfl, rfl, .weightRead rfl,
+      fun h => absurd rfl h, fun _ => rfl⟩
+  case upAbsentPut k v w ttl rm val weight hpc h1 h2 h3 h4 =>
+    exact ⟨_, _, hpc, F rfl rfl rfl rfl rfl rfl rfl rfl, .none rfl rfl, rfl,
+      .upAbsentPut k v w ttl rm val weight h1 h2 h3 h4, fun _ => rfl, fun _ => rfl⟩
+  case upAbsentPanic k v w ttl rm p hpc h1 =>
+    exact ⟨_, .idle, hpc, F rfl rfl rfl rfl rfl rfl rfl rfl, .none rfl rfl, rfl,
+      .upAbsentPanic k v w ttl rm p h1 rfl, fun h => absurd rfl h, fun _ => rfl⟩
+  case upOverflow k v w ttl rm e hpc h1 h2 =>
+    exact ⟨_, .idle, hpc, F rfl rfl rfl rfl rfl rfl rfl rfl, .none rfl rfl, rfl,
+      .upOverflow k v w ttl rm e h1 h2 rfl, fun h => absurd rfl h, fun _ => rfl⟩
+  case upFound k v w ttl rm e exp hpc h1 h2 =>
+    exact ⟨_, _, hpc, F rfl rfl rfl rfl rfl rfl rfl rfl, .none rfl rfl, rfl,
+      .upFound k v w ttl rm e exp h1 h2, fun _ => rfl, fun _ => rfl⟩
+  case upWAdded id uw n hpc =>
+    exact ⟨_, _, hpc, F rfl rfl rfl rfl rfl rfl rfl rfl, .none rfl rfl, rfl, .upWAdded id uw n, fun _ => rfl, fun _ => rfl⟩
+  case upWDeleted id uw e hpc =>
+    exact ⟨_, _, hpc, F rfl rfl rfl rfl rfl rfl rfl rfl, .none rfl rfl, rfl, .upWDeleted id uw e, fun _ => rfl, fun _ => rfl⟩
+  case upWUpdated id uw e n hpc hne =>
+    exact ⟨_, _, hpc, F rfl rfl rfl rfl rfl rfl rfl rfl, .none rfl rfl, rfl, .upWUpdated id uw e n hne, fun _ => rfl, fun _ => rfl⟩
+  case upTtlRemove id old new uw hpc =>
+    exact ⟨_, _, hpc, F rfl rfl rfl rfl rfl rfl rfl rfl, .none rfl rfl, rfl, .upTtlRemove id old new uw, fun _ => rfl, fun _ => rfl⟩
+  case refMiss k st hpc hm =>
+    exact ⟨_, .idle, hpc, F rfl rfl rfl rfl rfl rfl rfl rfl, .none rfl rfl, rfl, .refMiss k hm rfl,
+      fun h => absurd rfl h, fun _ => rfl⟩
+  case refHit k e hpc he hal =>
+    exact ⟨_, _, hpc, F rfl rfl rfl rfl rfl rfl rfl rfl, .none rfl rfl, rfl, .refHit k e he hal, fun _ => rfl, fun _ => rfl⟩
+
+theorem shutPos_start {r : Req} (h : r ≠ .shutdown) : (CPc.start r).shutPos = false := by
+  cases r <;> first | rfl | exact absurd rfl h
+
+/-- **no `shutdown()` requested, none under way** -/
+theorem noShut_step {b b' : BState} {a : Act} {o o' : Oracle} (hi : NoShut b) (h : stepB b a o = .ok (b', o'))
+    (ha : ∀ i, a ≠ .issue i .shutdown) : NoShut b' := by
+  cases stepB_bact h with
+  | issue i r hidle =>
+    refine ⟨hi.flag, ?_, hi.queue, hi.w⟩
+    intro j pc hj
+    rcases getElem?_set_cases hj with ⟨_, rfl⟩ | ⟨_, hj⟩
+    · exact shutPos_start (fun e => ha i (by rw [e]))
+    · exact hi.cl j pc hj
+  | client i _ hc =>
+    obtain ⟨pc, pc', hpc, hf, hq, hsp, _, _, _⟩ := cact_frame hc hi.flag (fun pc hpc => hi.cl i pc hpc)
+    refine ⟨by rw [hf.shutting]; exact hi.flag, ?_, ?_, by rw [hf.w]; exact hi.w⟩
+    · intro j pcj hj
+      rw [hf.cl] at hj
+      rcases getElem?_set_cases hj with ⟨_, rfl⟩ | ⟨_, hj⟩
+      · exact hsp
+      · exact hi.cl j pcj hj
+    · intro p hp
+      cases hq with
+      | none hq _ => rw [hq] at hp; exact hi.queue p hp
+      | spot st hq _ _ => rw [hq] at hp; exact hi.queue p hp
+      | send cmd he _ hq _ =>
+        rw [hq] at hp
+        rcases List.mem_append.mp hp with hp | hp
+        · exact hi.queue p hp
+        · simp only [List.mem_singleton] at hp
+          subst hp
+          intro e
+          simp only at e
+          subst he e
+          have := hi.cl i _ hpc
+          simp [CPc.shutPos] at this
+  | worker _ hw =>
+    have hq := (wtrans_prov hw).1
+    refine ⟨by rw [wtrans_shutting hw]; exact hi.flag, by rw [(wtrans_cl hw).1]; exact hi.cl,
+      fun p hp => hi.queue p (hq p hp), ?_⟩
+    cases hw
+    case recvShutdown hh q hw hq' => exact absurd rfl (hi.queue (.shutdown, hh) (by rw [hq']; exact List.mem_cons_self))
+    case drain cmd hh q hw hq' => exact absurd hw hi.w
+    all_goals simp [finishCmd, rejectCmd]
+  | sweeper v _ hs =>
+    obtain ⟨h1, h2, h3, _⟩ := strans_frame hs
+    exact ⟨by rw [(strans_frame2 hs).1]; exact hi.flag, by rw [h2]; exact hi.cl, by rw [h3]; exact hi.queue,
+      by rw [h1]; exact hi.w⟩
+  | consumer g' hg =>
+    exact ⟨by show g'.shutting = false; rw [hg]; exact hi.flag, hi.cl, by show ∀ p ∈ g'.queue, _; rw [hg]; exact hi.queue, hi.w⟩
+  | advance d => exact ⟨hi.flag, hi.cl, hi.queue, hi.w⟩
+
+theorem noShut_init (cfg : Cfg) (now : Nat) (seeds : List Nat) (clients : Nat) (sm : List (Nat × Nat)) :
+    NoShut { BState.init cfg now seeds clients with storeShard := sm } := by
+  refine ⟨rfl, ?_, ?_, by simp [BState.init]⟩
+  · intro i pc hpc
+    have := List.mem_of_getElem? hpc
+    simp only [BState.init, List.mem_replicate] at this
+    rw [this.2]; rfl
+  · intro p hp; simp [BState.init, State.init] at hp
+
+
+/-! ## 4  the budget invariant -/
+
+def posPart (x : Int) : Int := if 0 < x then x else 0
+
+theorem posPart_nonneg (x : Int) : 0 ≤ posPart x := by unfold posPart; split <;> omega
+theorem le_posPart (x : Int) : x ≤ posPart x := by unfold posPart; split <;> omega
+theorem posPart_of_pos {x : Int} (h : 0 < x) : posPart x = x := by unfold posPart; simp [h]
+
+/-- **the weight a request may add to the cache**: the weight of a put; the weight of a `put_or_update` (the explicit
+    one, else the one computed for the value given); `ttl_ticker_entry_size` for a `put_or_update` that gives neither
+    weight nor value but sets a time-to-live (the call then raises the key's charge by that much); nothing otherwise -/
+def Req.demand (cfg : Cfg) : Req → Int
+  | .putW _ _ w _ => posPart w
+  | .upsert _ v w ttl rm =>
+    match upsertW cfg v w ttl with
+    | some x => posPart x
+    | none => if ttl.isSome && !rm then cfg.ttlEntry else 0
+  | _ => 0
+
+theorem Req.demand_nonneg {cfg : Cfg} (hE : 0 ≤ cfg.ttlEntry) (r : Req) : 0 ≤ r.demand cfg := by
+  cases r <;> simp only [Req.demand, Int.le_refl]
+  · exact posPart_nonneg _
+  · split
+    · exact posPart_nonneg _
+    · split <;> omega
+
+/-- the part of its request's demand a client has not yet attributed to a key id -/
+def CPc.pend (cfg : Cfg) : CPc → Int
+  | .start r => r.demand cfg
+  | .putPresent _ _ w _ | .idNext _ _ w _ => posPart w
+  | .upUpdate k v w ttl rm => (Req.upsert k v w ttl rm).demand cfg
+  | .upWeightOf _ none none (some _) => cfg.ttlEntry
+  | _ => 0
+
+theorem CPc.pend_nonneg {cfg : Cfg} (hE : 0 ≤ cfg.ttlEntry) (pc : CPc) : 0 ≤ pc.pend cfg := by
+  unfold CPc.pend
+  split
+  · exact Req.demand_nonneg hE _
+  · exact posPart_nonneg _
+  · exact posPart_nonneg _
+  · exact Req.demand_nonneg hE _
+  · exact hE
+  · exact Int.le_refl _
+
+/-- the weight a command carries fits the budget of its key id -/
+def cmdBud (β : Nat → Int) : Cmd → Prop
+  | .put id _ w _ _ => w ≤ β id
+  | .putTtl id _ w _ _ _ => w ≤ β id
+  | .updateWeight id w => w ≤ β id
+  | _ => True
+
+def optBud (β : Nat → Int) (id : Nat) : Option Int → Prop
+  | some x => x ≤ β id
+  | none => True
+
+def pcBud (β : Nat → Int) : CPc → Prop
+  | .send cmd => cmdBud β cmd
+  | .upWeightOf id uw _ _ | .upTtlPut id _ uw | .upTtlDelete id _ uw | .upTtlRemove id _ _ uw | .upTtlInsert id _ uw =>
+    optBud β id uw
+  | _ => True
+
+def wBud (β : Nat → Int) (w : WPc) : Prop :=
+  (∀ c, w.cmd? = some c → c.w ≤ β c.id) ∧
+  (match w with
+   | .evSub _ _ _ id wk | .evStore _ _ _ id wk | .delSub id wk _ _ => wk.weight ≤ β id
+   | .update id x _ => x ≤ β id
+   | _ => True)
+
+def sBud (β : Nat → Int) : SPc → Prop
+  | .sub _ _ _ id wk | .store _ _ _ id wk => wk.weight ≤ β id
+  | _ => True
+
+theorem cmdBud.mono {β β' : Nat → Int} (h : ∀ x, β x ≤ β' x) {c : Cmd} (hc : cmdBud β c) : cmdBud β' c := by
+  cases c <;> simp only [cmdBud] at hc ⊢ <;> exact Int.le_trans hc (h _)
+
+theorem optBud.mono {β β' : Nat → Int} (h : ∀ x, β x ≤ β' x) {id : Nat} {uw : Option Int} (hc : optBud β id uw) :
+    optBud β' id uw := by
+  cases uw
+  · trivial
+  · exact Int.le_trans hc (h _)
+
+theorem pcBud.mono {β β' : Nat → Int} (h : ∀ x, β x ≤ β' x) {pc : CPc} (hc : pcBud β pc) : pcBud β' pc := by
+  cases pc <;> first | trivial | exact cmdBud.mono h hc | exact optBud.mono h hc
+
+theorem wBud.mono {β β' : Nat → Int} (h : ∀ x, β x ≤ β' x) {w : WPc} (hc : wBud β w) : wBud β' w := by
+  refine ⟨fun c hcw => Int.le_trans (hc.1 c hcw) (h _), ?_⟩
+  have h2 := hc.2
+  cases w <;> first | trivial | exact Int.le_trans h2 (h _)
+
+theorem sBud.mono {β β' : Nat → Int} (h : ∀ x, β x ≤ β' x) {sw : SPc} (hc : sBud β sw) : sBud β' sw := by
+  cases sw <;> first | trivial | exact Int.le_trans hc (h _)
+
+/-- **The budget invariant.**  `β id` is the budget of the key id `id`: the sum of the demands of the requests that have
+    been attributed to it (the put that created it; every `put_or_update` that found it).  Every weight under way for
+    `id` — its charge in the ledger, a command in the queue or in a client's hands, a local of the worker or the
+    sweeper — is at most `β id`; the budgets handed out so far plus the demands not yet attributed are at most `D`. -/
+structure Bud (D : Int) (β : Nat → Int) (b : BState) : Prop where
+  nonneg : ∀ id, 0 ≤ β id
+  zero : ∀ id, b.g.nextId ≤ id → β id = 0
+  kw : ∀ id wk, b.g.adm.kw.get? id = some wk → wk.weight ≤ β id
+  queue : ∀ p ∈ b.g.queue, cmdBud β p.1
+  cl : ∀ (i : Nat) (pc : CPc), b.cl[i]? = some pc → pcBud β pc
+  w : wBud β b.w
+  sw : sBud β b.sw
+  total : sumTo β b.g.nextId + lsum (CPc.pend b.g.cfg) b.cl ≤ D
+
+/-- a client moves from `pc` to `pc'`; the budget may grow -/
+theorem Bud.client {D : Int} {β β' : Nat → Int} {b b' : BState} {i : Nat} {pc pc' : CPc} (hb : Bud D β b)
+    (hpc : b.cl[i]? = some pc) (hf : CFrame b b' i pc') (hq : QEff b b' pc)
+    (hmono : ∀ x, β x ≤ β' x) (hzero : ∀ id, b'.g.nextId ≤ id → β' id = 0) (hbud : pcBud β' pc')
+    (htot : sumTo β' b'.g.nextId + pc'.pend b.g.cfg ≤ sumTo β b.g.nextId + pc.pend b.g.cfg) : Bud D β' b' := by
+  refine ⟨fun id => Int.le_trans (hb.nonneg id) (hmono id), hzero, ?_, ?_, ?_, ?_, ?_, ?_⟩
+  · intro id wk hk
+    rw [hf.adm] at hk
+    exact Int.le_trans (hb.kw id wk hk) (hmono id)
+  · intro p hp
+    have hold : ∀ p ∈ b.g.queue, cmdBud β' p.1 := fun p hp => cmdBud.mono hmono (hb.queue p hp)
+    cases hq with
+    | none hq _ => rw [hq] at hp; exact hold p hp
+    | spot st hq _ _ => rw [hq] at hp; exact hold p hp
+    | send cmd he _ hq _ =>
+      rw [hq] at hp
+      rcases List.mem_append.mp hp with hp | hp
+      · exact hold p hp
+      · simp only [List.mem_singleton] at hp
+        subst hp he
+        exact cmdBud.mono hmono (hb.cl i _ hpc)
+  · intro j pcj hj
+    rw [hf.cl] at hj
+    rcases getElem?_set_cases hj with ⟨_, rfl⟩ | ⟨_, hj⟩
+    · exact hbud
+    · exact pcBud.mono hmono (hb.cl j pcj hj)
+  · rw [hf.w]; exact wBud.mono hmono hb.w
+  · rw [hf.sw]; exact sBud.mono hmono hb.sw
+  · have h1 := hb.total
+    rw [hf.cl, hf.cfg, lsum_set _ _ _ _ _ hpc]
+    omega
+
+/-- … the budget stays -/
+theorem Bud.client0 {D : Int} {β : Nat → Int} {b b' : BState} {i : Nat} {pc pc' : CPc} (hb : Bud D β b)
+    (hpc : b.cl[i]? = some pc) (hf : CFrame b b' i pc') (hq : QEff b b' pc) (hn : b'.g.nextId = b.g.nextId)
+    (hbud : pcBud β pc') (hpend : pc'.pend b.g.cfg ≤ pc.pend b.g.cfg) : Bud D β b' :=
+  hb.client hpc hf hq (fun _ => Int.le_refl _) (by rw [hn]; exact hb.zero) hbud (by rw [hn]; omega)
+
+
+theorem tail_bud {β : Nat → Int} {pc : CPc} {id : Nat} {uw : Option Int} (ht : pc.tail? = some (id, uw))
+    (hb : pcBud β pc) : optBud β id uw := by
+  cases pc <;> simp only [CPc.tail?] at ht <;> try cases ht
+  case upWeightOf id' uw' old new =>
+    split at ht
+    · cases ht; exact hb
+    · cases ht
+  all_goals exact hb
+
+theorem upExpiry_added {now : Nat} {ttl : Option Nat} {rm : Bool} {n : Nat}
+    (h : upExpiry now ttl rm none = some (some n)) : (ttl.isSome && !rm) = true := by
+  unfold upExpiry at h
+  split at h
+  · cases h
+  · rename_i hrm
+    cases ttl with
+    | none => cases h
+    | some t => simp at hrm ⊢; exact hrm
+
+/-- **the budget invariant under a client action** -/
+theorem bud_client {D : Int} {β : Nat → Int} {b b' : BState} {i : Nat} (hb : Bud D β b) (hE : 0 ≤ b.g.cfg.ttlEntry)
+    (hI : BInv b) (hns : NoShut b) (hc : CAct b i b') : ∃ β', Bud D β' b' := by
+  obtain ⟨pc, pc', hpc, hf, hq, hsp, hstep, hres, hnid⟩ := cact_frame hc hns.flag (fun pc h => hns.cl i pc h)
+  have hp0 : ∀ pc : CPc, 0 ≤ pc.pend b.g.cfg := CPc.pend_nonneg hE
+  have hpb := hb.cl i pc hpc
+  have hused : ∀ u, pc.usedId? = some u → u < b.g.nextId := by
+    intro u hu
+    exact (hI.freshIds.2.2.2.2.1 u (mem_usedIds_of_client hpc hu)).2
+  cases hstep
+  case idNext k v w ttl hn =>
+    refine ⟨bump β b.g.nextId (posPart w), hb.client hpc hf hq (bump_ge (posPart_nonneg w)) ?_ ?_ ?_⟩
+    · intro id hid
+      rw [hn] at hid
+      have : id ≠ b.g.nextId := by omega
+      simp only [bump, this, if_false]
+      exact hb.zero id (by omega)
+    · have h0 := hb.zero b.g.nextId (Nat.le_refl _)
+      have h1 := le_posPart w
+      cases ttl <;> simp only [pcBud, cmdBud, bump_self] <;> omega
+    · rw [hn]
+      cases ttl <;>
+        simp only [sumTo, sumTo_bump_ge β _ _ _ (Nat.le_refl _), bump_self, hb.zero b.g.nextId (Nat.le_refl _), CPc.pend] <;>
+        omega
+  case upFound k v w ttl rm e exp he hx =>
+    have hid : e.id < b.g.nextId := by
+      have hm : e.id ∈ usedIds b := by
+        unfold usedIds
+        simp only [List.mem_append, List.mem_map]
+        exact Or.inl (Or.inl (Or.inl (Or.inl ⟨(k, e), AMap.mem_of_get? he, rfl⟩)))
+      exact (hI.freshIds.2.2.2.2.1 e.id hm).2
+    have hn := hnid (by intro _ _ _ _ h; cases h)
+    cases huw : upsertW b.g.cfg v w ttl with
+    | some x =>
+      refine ⟨bump β e.id (posPart x), hb.client hpc hf hq (bump_ge (posPart_nonneg x)) ?_ ?_ ?_⟩
+      · intro id hid'
+        rw [hn] at hid'
+        have : id ≠ e.id := by omega
+        simp only [bump, this, if_false]
+        exact hb.zero id hid'
+      · have h0 := hb.nonneg e.id
+        have h1 := le_posPart x
+        simp only [pcBud, huw, optBud, bump_self]
+        omega
+      · rw [hn, sumTo_bump_lt β _ _ _ hid]
+        simp only [CPc.pend, Req.demand, huw]
+        omega
+    | none =>
+      refine ⟨β, hb.client0 hpc hf hq hn (by simp [pcBud, huw, optBud]) ?_⟩
+      simp only [CPc.pend, Req.demand, huw]
+      cases hexp : e.expiry with
+      | some t => simp only; split <;> omega
+      | none =>
+        cases exp with
+        | none => simp only; split <;> omega
+        | some n =>
+          rw [hexp] at hx
+          simp only [upExpiry_added hx, if_true]
+          omega
+  case upWAdded id uw n =>
+    have hn := hnid (by intro _ _ _ _ h; cases h)
+    have hid := hused id rfl
+    cases uw with
+    | some x =>
+      exact ⟨β, hb.client0 hpc hf hq hn (by simpa [pcBud, optBud, deriveAdd] using hpb) (by simp [CPc.pend])⟩
+    | none =>
+      cases hk : b.g.adm.kw.get? id with
+      | none =>
+        refine ⟨β, hb.client0 hpc hf hq hn (by simp [pcBud, optBud, deriveAdd, hk]) ?_⟩
+        simp only [CPc.pend]; omega
+      | some wk =>
+        refine ⟨bump β id b.g.cfg.ttlEntry, hb.client hpc hf hq (bump_ge hE) ?_ ?_ ?_⟩
+        · intro id' hid'
+          rw [hn] at hid'
+          have : id' ≠ id := by omega
+          simp only [bump, this, if_false]
+          exact hb.zero id' hid'
+        · have := hb.kw id wk hk
+          simp only [pcBud, optBud, deriveAdd, hk, Option.map_some, bump_self]
+          omega
+        · rw [hn, sumTo_bump_lt β _ _ _ hid]
+          simp only [CPc.pend]
+          omega
+  case upWDeleted id uw e =>
+    have hn := hnid (by intro _ _ _ _ h; cases h)
+    refine ⟨β, hb.client0 hpc hf hq hn ?_ (by simp [CPc.pend])⟩
+    cases uw with
+    | some x => simpa [pcBud, optBud, deriveDel] using hpb
+    | none =>
+      cases hk : b.g.adm.kw.get? id with
+      | none => simp [pcBud, optBud, deriveDel, hk]
+      | some wk =>
+        have := hb.kw id wk hk
+        simp only [pcBud, optBud, deriveDel, hk, Option.map_some]
+        omega
+  case tailSend id w hw ht =>
+    have hn := hnid (by intro _ _ _ _ h; subst h; simp [CPc.tail?] at ht)
+    refine ⟨β, hb.client0 hpc hf hq hn ?_ (hp0 _)⟩
+    exact tail_bud ht hpb
+  case upAbsentPut k v w ttl rm val weight h1 h2 h3 h4 =>
+    have hn := hnid (by intro _ _ _ _ h; cases h)
+    refine ⟨β, hb.client0 hpc hf hq hn trivial ?_⟩
+    simp only [CPc.pend, Req.demand, h3]
+    omega
+  all_goals
+    have hn := hnid (by first | (intro _ _ _ _ h; cases h; done) | (intro _ _ _ _ h; subst h; simp [CPc.tail?] at *))
+    first
+      | exact ⟨β, hb.client0 hpc hf hq hn trivial (hp0 _)⟩
+      | exact ⟨β, hb.client0 hpc hf hq hn trivial (Int.le_refl _)⟩
+      | exact ⟨β, hb.client0 hpc hf hq hn hpb (hp0 _)⟩
+      | exact ⟨β, hb.client0 hpc hf hq hn hpb (Int.le_refl _)⟩
+
+
+/-- a worker / sweeper action: clients, key-id counter and configuration stay -/
+theorem Bud.frame {D : Int} {β : Nat → Int} {b b' : BState} (hb : Bud D β b) (hcl : b'.cl = b.cl)
+    (hn : b'.g.nextId = b.g.nextId) (hcfg : b'.g.cfg = b.g.cfg)
+    (hkw : ∀ id wk, b'.g.adm.kw.get? id = some wk → wk.weight ≤ β id)
+    (hq : ∀ p ∈ b'.g.queue, cmdBud β p.1) (hw : wBud β b'.w) (hsw : sBud β b'.sw) : Bud D β b' :=
+  ⟨hb.nonneg, by rw [hn]; exact hb.zero, hkw, hq, by rw [hcl]; exact hb.cl, hw, hsw, by rw [hn, hcl, hcfg]; exact hb.total⟩
+
+theorem cmdBud_cmdOfPut {β : Nat → Int} {c : PutCmd} (h : cmdBud β (cmdOfPut c)) : c.w ≤ β c.id := by
+  unfold cmdOfPut at h; split at h <;> exact h
+
+theorem bud_wtrans {D : Int} {β : Nat → Int} {b b' : BState} (hb : Bud D β b) (h : WTrans b b') : Bud D β b' := by
+  have hqsub := (wtrans_prov h).1
+  have hq : ∀ p ∈ b'.g.queue, cmdBud β p.1 := fun p hp => hb.queue p (hqsub p hp)
+  refine hb.frame (wtrans_cl h).1 (wtrans_nextId h) (wtrans_cfg h) ?_ hq ?_ ?_
+  · -- the ledger
+    intro id wk hk
+    cases h
+    case insert c hw =>
+      simp only [] at hk
+      rw [AMap.get?_set] at hk
+      split at hk
+      · rename_i he; cases hk; subst he
+        have := hb.w.1 c (by rw [hw]; rfl)
+        exact this
+      · exact hb.kw id wk hk
+    case updateApplied id0 w hh wk0 hw _ hg =>
+      simp only [finishCmd] at hk
+      rw [AMap.get?_set] at hk
+      split at hk
+      · rename_i he; cases hk; subst he
+        have := hb.w.2
+        rw [hw] at this
+        exact this
+      · exact hb.kw id wk hk
+    case evRemoveSome c e s victim wk0 hw hg =>
+      simp only [] at hk
+      rw [AMap.get?_del] at hk
+      split at hk
+      · cases hk
+      · exact hb.kw id wk hk
+    case delKwSome id0 exp hh wk0 hw hg =>
+      simp only [] at hk
+      rw [AMap.get?_del] at hk
+      split at hk
+      · cases hk
+      · exact hb.kw id wk hk
+    all_goals exact hb.kw id wk (by simpa [finishCmd, rejectCmd, ttlPut, ttlDelete] using hk)
+  · -- the worker's locals
+    have hw0 := hb.w
+    cases h
+    case recvPut c q hw hq' =>
+      have := hb.queue (cmdOfPut c, c.h) (by rw [hq']; exact List.mem_cons_self)
+      exact ⟨fun c' hc' => by simp only [WPc.cmd?, Option.some.injEq] at hc'; subst hc'; exact cmdBud_cmdOfPut this, trivial⟩
+    case recvUpdate id w hh q hw hq' =>
+      have := hb.queue (.updateWeight id w, hh) (by rw [hq']; exact List.mem_cons_self)
+      exact ⟨fun c' hc' => by simp [WPc.cmd?] at hc', this⟩
+    case evRemoveSome c e s victim wk0 hw hg =>
+      rw [hw] at hw0
+      exact ⟨fun c' hc' => by simp only [WPc.cmd?, Option.some.injEq] at hc'; subst hc'; exact hw0.1 _ rfl, hb.kw _ _ hg⟩
+    case delKwSome id0 exp hh wk0 hw hg =>
+      exact ⟨fun c' hc' => by simp [WPc.cmd?] at hc', hb.kw _ _ hg⟩
+    all_goals
+      rw [‹b.w = _›] at hw0
+      refine ⟨fun c' hc' => ?_, ?_⟩
+      · first
+          | (simp [WPc.cmd?, finishCmd, rejectCmd] at hc'; done)
+          | (simp only [WPc.cmd?, finishCmd, rejectCmd, Option.some.injEq] at hc'; subst hc'; exact hw0.1 _ rfl)
+      · first
+          | trivial
+          | exact hw0.2
+  · rw [show b'.sw = b.sw by cases h <;> simp [finishCmd, rejectCmd]]
+    exact hb.sw
+
+
+theorem sweepNext_cases (b : BState) (n sh : Nat) (r : List (Nat × Nat)) :
+    (sweepNext b n sh r).sw = .fin ∨ (sweepNext b n sh r).sw = .entry n sh r := by
+  unfold sweepNext; split <;> simp
+
+theorem sBud_sweepNext (β : Nat → Int) (b : BState) (n sh : Nat) (r : List (Nat × Nat)) :
+    sBud β (sweepNext b n sh r).sw := by
+  rcases sweepNext_cases b n sh r with h | h <;> rw [h] <;> trivial
+
+theorem bud_strans {D : Int} {β : Nat → Int} {b b' : BState} (hb : Bud D β b) (h : STrans b b') : Bud D β b' := by
+  obtain ⟨h1, h2, h3, h4, h5, hmax⟩ := strans_frame h
+  clear hmax
+  refine hb.frame h2 h4 h5 (fun id wk hk => hb.kw id wk (strans_kw h id wk hk)) (by rw [h3]; exact hb.queue)
+    (by rw [h1]; exact hb.w) ?_
+  have hs0 := hb.sw
+  cases h
+  case kwRemoveSome now shard rest id wk hg hsw hu => exact hb.kw id wk hg
+  case sub now shard rest id wk _ hsw => rw [hsw] at hs0; exact hs0
+  case fin => trivial
+  case entryExpired => trivial
+  all_goals exact sBud_sweepNext β _ _ _ _
+
+/-- the demand an action adds: that of the request it issues -/
+def Act.demand (cfg : Cfg) : Act → Int
+  | .issue _ r => r.demand cfg
+  | _ => 0
+
+/-- **the budget invariant, one action**: the issue of a request adds its demand to the bound -/
+theorem bud_step {D : Int} {β : Nat → Int} {b b' : BState} {a : Act} {o o' : Oracle} (hb : Bud D β b)
+    (hE : 0 ≤ b.g.cfg.ttlEntry) (hI : BInv b) (hns : NoShut b) (h : stepB b a o = .ok (b', o')) :
+    ∃ β', Bud (D + a.demand b.g.cfg) β' b' := by
+  cases stepB_bact h with
+  | issue i r hidle =>
+    refine ⟨β, hb.nonneg, hb.zero, hb.kw, hb.queue, ?_, hb.w, hb.sw, ?_⟩
+    · intro j pc hj
+      rcases getElem?_set_cases hj with ⟨_, rfl⟩ | ⟨_, hj⟩
+      · trivial
+      · exact hb.cl j pc hj
+    · have := hb.total
+      show sumTo β b.g.nextId + lsum (CPc.pend b.g.cfg) (b.cl.set i (.start r)) ≤ _
+      rw [lsum_set _ _ _ _ _ hidle]
+      simp only [CPc.pend, Act.demand]
+      omega
+  | client i _ hc =>
+    obtain ⟨β', hb'⟩ := bud_client hb hE hI hns hc
+    exact ⟨β', by simpa [Act.demand] using hb'⟩
+  | worker _ hw => exact ⟨β, by simpa [Act.demand] using bud_wtrans hb hw⟩
+  | sweeper v _ hs => exact ⟨β, by simpa [Act.demand] using bud_strans hb hs⟩
+  | consumer g' hg =>
+    refine ⟨β, ?_⟩
+    simp only [Act.demand, Int.add_zero]
+    have e1 : g'.nextId = b.g.nextId := by rw [hg]
+    have e2 : g'.adm = b.g.adm := by rw [hg]
+    have e3 : g'.queue = b.g.queue := by rw [hg]
+    have e4 : g'.cfg = b.g.cfg := by rw [hg]
+    exact ⟨hb.nonneg, by show ∀ id, g'.nextId ≤ id → _; rw [e1]; exact hb.zero,
+      by show ∀ id wk, g'.adm.kw.get? id = some wk → _; rw [e2]; exact hb.kw,
+      by show ∀ p ∈ g'.queue, _; rw [e3]; exact hb.queue, hb.cl, hb.w, hb.sw,
+      by show sumTo β g'.nextId + lsum (CPc.pend g'.cfg) b.cl ≤ D; rw [e1, e4]; exact hb.total⟩
+  | advance d =>
+    refine ⟨β, ?_⟩
+    simp only [Act.demand, Int.add_zero]
+    exact ⟨hb.nonneg, hb.zero, hb.kw, hb.queue, hb.cl, hb.w, hb.sw, hb.total⟩
+
+theorem bud_init (cfg : Cfg) (now : Nat) (seeds : List Nat) (clients : Nat) (sm : List (Nat × Nat)) :
+    Bud 0 (fun _ => 0) { BState.init cfg now seeds clients with storeShard := sm } := by
+  refine ⟨fun _ => Int.le_refl _, fun _ _ => rfl, ?_, ?_, ?_, ?_, trivial, ?_⟩
+  · intro id wk hk; simp [BState.init, State.init] at hk
+  · intro p hp; simp [BState.init, State.init] at hp
+  · intro i pc hpc
+    have := List.mem_of_getElem? hpc
+    simp only [BState.init, List.mem_replicate] at this
+    rw [this.2]; trivial
+  · exact ⟨fun c hc => by simp [BState.init, WPc.cmd?] at hc, trivial⟩
+  · have h1 : ∀ n, sumTo (fun _ => (0 : Int)) n = 0 := by
+      intro n; induction n with
+      | zero => rfl
+      | succ n ih => simp [sumTo, ih]
+    simp only [BState.init, h1]
+    rw [lsum_replicate _ _ rfl]
+    exact Int.le_refl _
+
+/-! ### what the budget gives: the put the worker is about to weigh fits -/
+
+theorem sumW_le_budget {β : Nat → Int} : ∀ (kw : AMap Nat WKey), (∀ p ∈ kw, p.2.weight ≤ β p.1) →
+    sumW kw ≤ ((kw.map Prod.fst).map β).sum
+  | [], _ => by simp
+  | (k, wk) :: m, h => by
+    have h1 := h (k, wk) List.mem_cons_self
+    have h2 := sumW_le_budget m (fun p hp => h p (List.mem_cons_of_mem _ hp))
+    rw [sumW_cons]
+    simp only [List.map_cons, List.sum_cons]
+    simp only at h1
+    omega
+
+/-- **The space check succeeds.**  At the worker's first free-space read of a put `c` (`space0`), in a reachable state
+    with no `shutdown()` requested: `used + c.w ≤ D` — the charged ids, the id the sweeper may just have taken out of the
+    ledger (not yet subtracted from the total) and the fresh id of `c` are pairwise distinct, each within its budget. -/
+theorem bud_space0 {cfg : Cfg} {now : Nat} {seeds : List Nat} {clients : Nat} {D : Int} {β : Nat → Int} {b : BState}
+    {c : PutCmd} (hr : Reach cfg now seeds clients b) (hsh : b.g.shutting = false) (hb : Bud D β b)
+    (hE : 0 ≤ b.g.cfg.ttlEntry) (hw : b.w = .space0 c) : b.g.adm.used + c.w ≤ D := by
+  have hI := binv_reach hr
+  have hj := bbij_reach hr hsh
+  have hacc := C05_layerB_accounting hr hsh
+  have hadd : pendingAdd b = 0 := by simp [pendingAdd, hw]
+  have hcw : c.w ≤ β c.id := hb.w.1 c (by rw [hw]; rfl)
+  have hcnone : b.g.adm.kw.get? c.id = none := hI.freshIds.2.2.2.1 c.id (by rw [hw]; rfl)
+  have hclt : c.id < b.g.nextId := hI.freshIds.2.1 c.id (by simp [occ, WPc.freshId?, hw])
+  have hkwle : sumW b.g.adm.kw ≤ ((b.g.adm.kw.map Prod.fst).map β).sum :=
+    sumW_le_budget _ (fun p hp => hb.kw p.1 p.2 (AMap.get?_of_mem hI.kwNoDup hp))
+  have hkeys : ∀ x ∈ b.g.adm.kw.map Prod.fst, x < b.g.nextId := by
+    intro x hx
+    obtain ⟨p, hp, rfl⟩ := List.mem_map.mp hx
+    exact hI.freshIds.2.2.2.2.2 p.1 p.2 (AMap.get?_of_mem hI.kwNoDup hp)
+  have hcnot : c.id ∉ b.g.adm.kw.map Prod.fst := AMap.get?_eq_none_iff.mp hcnone
+  have htot := hb.total
+  have hpend : 0 ≤ lsum (CPc.pend b.g.cfg) b.cl := lsum_nonneg (CPc.pend_nonneg hE) _
+  -- the sweeper's local
+  by_cases hs : ∃ n sh r id wk, b.sw = .sub n sh r id wk
+  · obtain ⟨n, sh, r, id, wk, hsw⟩ := hs
+    have hsub : pendingSub b = wk.weight := by simp [pendingSub, hw, hsw]
+    have hst := hj.sEvictStale id wk (by rw [hsw]; rfl)
+    have hwk : wk.weight ≤ β id := by have := hb.sw; rw [hsw] at this; exact this
+    have hidnot : id ∉ b.g.adm.kw.map Prod.fst := AMap.get?_eq_none_iff.mp hst.1
+    have hne : id ≠ c.id := by
+      intro e
+      have : 0 < occ b c.id := by simp [occ, WPc.freshId?, hw]
+      rw [← e] at this
+      omega
+    have hnd : (c.id :: id :: b.g.adm.kw.map Prod.fst).Nodup := by
+      refine List.nodup_cons.mpr ⟨?_, List.nodup_cons.mpr ⟨hidnot, hI.kwNoDup⟩⟩
+      intro hm
+      rcases List.mem_cons.mp hm with e | hm
+      · exact hne e.symm
+      · exact hcnot hm
+    have hle := sum_map_le_sumTo _ β b.g.nextId hb.nonneg hnd (by
+      intro x hx
+      rcases List.mem_cons.mp hx with rfl | hx
+      · exact hclt
+      · rcases List.mem_cons.mp hx with rfl | hx
+        · exact hst.2.2
+        · exact hkeys x hx)
+    simp only [List.map_cons, List.sum_cons] at hle
+    omega
+  · have hsub : pendingSub b = 0 := by
+      unfold pendingSub
+      rw [hw]
+      simp only [Int.zero_add]
+      split
+      · rename_i n sh r id wk hsw; exact absurd ⟨n, sh, r, id, wk, hsw⟩ hs
+      · rfl
+    have hnd : (c.id :: b.g.adm.kw.map Prod.fst).Nodup := List.nodup_cons.mpr ⟨hcnot, hI.kwNoDup⟩
+    have hle := sum_map_le_sumTo _ β b.g.nextId hb.nonneg hnd (by
+      intro x hx
+      rcases List.mem_cons.mp hx with rfl | hx
+      · exact hclt
+      · exact hkeys x hx)
+    simp only [List.map_cons, List.sum_cons] at hle
+    omega
+
+
+/-! ### along a run -/
+
+/-- the requests issued along a history (latest first) -/
+def issuedH : List (BState × Act) → List Req
+  | [] => []
+  | (_, .issue _ r) :: h => r :: issuedH h
+  | _ :: h => issuedH h
+
+/-- the total demand of the requests issued along a history -/
+def demandH (cfg : Cfg) (h : List (BState × Act)) : Int := ((issuedH h).map (Req.demand cfg)).sum
+
+/-- no `shutdown()` is requested along the history -/
+def NoShutdownReq (h : List (BState × Act)) : Prop := ∀ p ∈ h, ∀ i, p.2 ≠ .issue i .shutdown
+
+instance (h : List (BState × Act)) : Decidable (NoShutdownReq h) :=
+  decidable_of_iff (h.all (fun p => match p.2 with | .issue _ .shutdown => false | _ => true) = true) (by
+    unfold NoShutdownReq
+    simp only [List.all_eq_true]
+    constructor
+    · intro hh p hp i e
+      have := hh p hp
+      rw [e] at this
+      simp at this
+    · intro hh p hp
+      have := hh p hp
+      split
+      · rename_i i e; exact absurd e (this i)
+      · rfl)
+
+theorem demandH_cons (cfg : Cfg) (b : BState) (a : Act) (h : List (BState × Act)) :
+    demandH cfg ((b, a) :: h) = demandH cfg h + a.demand cfg := by
+  cases a <;> simp [demandH, issuedH, Act.demand] <;> omega
+
+theorem demandH_nonneg {cfg : Cfg} (hE : 0 ≤ cfg.ttlEntry) : ∀ h, 0 ≤ demandH cfg h
+  | [] => by simp [demandH, issuedH]
+  | (b, a) :: h => by
+    rw [demandH_cons]
+    have := demandH_nonneg hE h
+    cases a <;> simp only [Act.demand] <;> first | omega | (have := Req.demand_nonneg hE ‹Req›; omega)
+
+/-- the demand of an initial segment is at most the demand of the whole -/
+theorem demandH_suffix {cfg : Cfg} (hE : 0 ≤ cfg.ttlEntry) : ∀ (h1 h0 : List (BState × Act)),
+    demandH cfg h0 ≤ demandH cfg (h1 ++ h0)
+  | [], h0 => Int.le_refl _
+  | (b, a) :: h1, h0 => by
+    rw [List.cons_append, demandH_cons]
+    have := demandH_suffix hE h1 h0
+    cases a <;> simp only [Act.demand] <;> first | omega | (have := Req.demand_nonneg hE ‹Req›; omega)
+
+/-- **the invariants of a run from the initial state on which no `shutdown()` is requested** -/
+theorem bud_run {cfg : Cfg} {now : Nat} {seeds : List Nat} {clients : Nat} {sm : List (Nat × Nat)} {b : BState}
+    {h : List (BState × Act)} (hE : 0 ≤ cfg.ttlEntry)
+    (hrun : RunH { BState.init cfg now seeds clients with storeShard := sm } h b) (hns : NoShutdownReq h) :
+    NoShut b ∧ ∃ β, Bud (demandH cfg h) β b := by
+  induction hrun with
+  | nil => exact ⟨noShut_init cfg now seeds clients sm, _, by simpa [demandH, issuedH] using bud_init cfg now seeds clients sm⟩
+  | @step b1 b' h1 a o o' hrun' hs ih =>
+    have hns' : NoShutdownReq h1 := fun p hp => hns p (List.mem_cons_of_mem _ hp)
+    obtain ⟨hn1, β, hb1⟩ := ih hns'
+    have hr := swB_reach_run (.init sm) hrun'
+    have hcfg := reach_cfg hr
+    refine ⟨noShut_step hn1 hs (fun i => hns (b1, a) List.mem_cons_self i), ?_⟩
+    obtain ⟨β', hb'⟩ := bud_step hb1 (by rw [hcfg]; exact hE) (binv_reach hr) hn1 hs
+    rw [hcfg] at hb'
+    exact ⟨β', by rw [demandH_cons]; exact hb'⟩
+
+/-- every state recorded in the history of a run is the end of a run whose history is a final segment of it -/
+theorem runH_mem {b0 b : BState} {h : List (BState × Act)} (hrun : RunH b0 h b) {p : BState × Act} (hp : p ∈ h) :
+    ∃ h1 h0, h = h1 ++ p :: h0 ∧ RunH b0 h0 p.1 := by
+  induction hrun with
+  | nil => cases hp
+  | @step b1 b' h1 a o o' hrun' hs ih =>
+    rcases List.mem_cons.mp hp with rfl | hp
+    · exact ⟨[], h1, rfl, hrun'⟩
+    · obtain ⟨h2, h0, e, hr0⟩ := ih hp
+      exact ⟨(b1, a) :: h2, h0, by rw [e]; rfl, hr0⟩
+
+theorem noShutdownReq_suffix {h1 h0 : List (BState × Act)} (h : NoShutdownReq (h1 ++ h0)) : NoShutdownReq h0 :=
+  fun p hp => h p (List.mem_append_right _ hp)
+
+/-- the positions of the eviction loop of `create_space` -/
+def WPc.evicting : WPc → Bool
+  | .sampleInit .. | .evRemove .. | .evSub .. | .evStore .. | .evSpace .. | .fill .. | .emptySpace .. => true
+  | _ => false
+
+
+theorem pressInv_entered {h : List (BState × Act)} {w : WPc} (hp : PressInv h w) (hw : w.evicting = true) :
+    ∃ c, Entered h c := by
+  cases w <;> simp only [WPc.evicting] at hw <;> try cases hw
+  case sampleInit c _ _ => exact ⟨c, hp.2.2⟩
+  case fill c _ _ _ => exact ⟨c, hp.2⟩
+  case evRemove c _ _ _ => exact ⟨c, hp.2⟩
+  case evSub c _ _ _ _ => exact ⟨c, hp.2⟩
+  case evStore c _ _ _ _ => exact ⟨c, hp.2⟩
+  case evSpace c _ _ => exact ⟨c, hp⟩
+  case emptySpace c => exact ⟨c, hp.2⟩
+
+theorem mem_setAck {acks : List Status} {h : Option Nat} {st x : Status} (hx : x ∈ setAck acks h st) :
+    x ∈ acks ∨ x = st := by
+  cases h with
+  | none => exact Or.inl hx
+  | some i =>
+    simp only [setAck] at hx
+    obtain ⟨j, hj, rfl⟩ := List.getElem_of_mem hx
+    rw [List.getElem_set]
+    split
+    · exact Or.inr rfl
+    · exact Or.inl (List.getElem_mem _)
+
+/-- no acknowledgement cell holds `Rejected(NotEnoughSpace)` -/
+def NoSpaceFree (b : BState) : Prop := ∀ st ∈ b.g.acks, st ≠ .rejected .noSpace
+
+theorem noSpaceFree_step {b b' : BState} {a : Act} {o o' : Oracle} (hi : NoSpaceFree b) (hns : NoShut b)
+    (hev : b.w.evicting = false) (h : stepB b a o = .ok (b', o')) : NoSpaceFree b' := by
+  cases stepB_bact h with
+  | issue i r hidle => exact hi
+  | client i _ hc =>
+    obtain ⟨pc, pc', hpc, hf, hq, hsp, hstep, hres, hnid⟩ := cact_frame hc hns.flag (fun pc hpc => hns.cl i pc hpc)
+    intro st hst
+    cases hq with
+    | none _ ha => rw [ha] at hst; exact hi st hst
+    | spot st' _ ha hor =>
+      rw [ha] at hst
+      rcases List.mem_append.mp hst with hst | hst
+      · exact hi st hst
+      · simp only [List.mem_singleton] at hst; subst hst
+        rcases hor with rfl | rfl <;> simp
+    | send cmd _ _ _ ha =>
+      rw [ha] at hst
+      rcases List.mem_append.mp hst with hst | hst
+      · exact hi st hst
+      · simp only [List.mem_singleton] at hst; subst hst; simp
+  | worker _ hw =>
+    intro st hst
+    cases hw
+    case initReject c e space hw => rw [hw] at hev; cases hev
+    case fillReject c e s space hw => rw [hw] at hev; cases hev
+    case emptyReject c hw _ => rw [hw] at hev; cases hev
+    all_goals
+      first
+        | exact hi st hst
+        | (simp only [finishCmd, rejectCmd] at hst
+           rcases mem_setAck hst with hst | rfl
+           · exact hi st hst
+           · simp)
+        | exact hi st (by simpa [finishCmd, rejectCmd, ttlPut, ttlDelete] using hst)
+  | sweeper v _ hs =>
+    have : b'.g.acks = b.g.acks := by cases hs <;> simp
+    intro st hst; rw [this] at hst; exact hi st hst
+  | consumer g' hg =>
+    intro st hst
+    have : g'.acks = b.g.acks := by rw [hg]
+    exact hi st (by rw [← this]; exact hst)
+  | advance d => exact hi
+
+
+/-! ## 6  the eviction under way, on a run where the entry of the key never stands expired -/
+
+/-- the entry stored under `k`, if any, has not expired by its own deadline -/
+def LiveK (k : Nat) (b : BState) : Prop := ∀ e t, b.g.store.get? k = some e → e.expiry = some t → b.g.now ≤ t
+
+instance (k : Nat) (b : BState) : Decidable (LiveK k b) :=
+  match h : b.g.store.get? k with
+  | none => isTrue (by intro e t he; rw [h] at he; cases he)
+  | some e =>
+    match hx : e.expiry with
+    | none => isTrue (by intro e' t he' hx'; rw [h] at he'; cases he'; rw [hx] at hx'; cases hx')
+    | some t => decidable_of_iff (b.g.now ≤ t) ⟨fun hle e' t' he' hx' => by
+        rw [h] at he'; cases he'; rw [hx] at hx'; cases hx'; exact hle, fun hl => hl e t h hx⟩
+
+/-- `EvInv` (IndexStep.lean) is kept by every action taken in a state in which the entry of `k` has not expired — without
+    the hypothesis `SerialEv` of `evinv_step`: the one action that breaks `EvInv` is an `upsert.update` that REVIVES an
+    entry whose eviction the sweeper is carrying through (it has expired: `EvInv`), and that entry is not live. -/
+theorem evinv_step_live {cfg : Cfg} {now0 : Nat} {seeds : List Nat} {clients : Nat} {b b' : BState} {a : Act}
+    {o o' : Oracle} {k : Nat} (hr : Reach cfg now0 seeds clients b) (hE : EvInv b k) (hlive : LiveK k b)
+    (hsh : b'.g.shutting = false) (h : stepB b a o = .ok (b', o')) : EvInv b' k := by
+  have hj := bbij_reach hr (stepB_running_before h hsh)
+  have hmono := C10_layerB_clock_monotone h
+  have hE' : ∀ e n, b.g.store.get? k = some e → eview b e.id = some n → ∃ t, e.expiry = some t ∧ b'.g.now > t := by
+    intro e n hk hev
+    obtain ⟨t, hx, hgt⟩ := hE e n hk hev
+    exact ⟨t, hx, by omega⟩
+  by_cases ha : ∀ v, a ≠ .sweeper v
+  · obtain ⟨hsw, _, _, _⟩ := swB_other_step h ha
+    intro e' now hk' hev'
+    rw [eview_congr hsw] at hev'
+    have hse := stepB_storeEff h
+    cases hse
+    case same hs => rw [hs] at hk'; exact hE' e' now hk' hev'
+    case put c exp hw hx hwr hs =>
+      rw [hs, AMap.get?_set] at hk'
+      split at hk'
+      · cases hk'
+        exfalso
+        obtain ⟨sh, rest, wk, hsub⟩ := eview_some.mp hev'
+        have hev : b.sw.evicting? = some (c.id, wk) := by
+          rcases hsub with hsub | hsub <;> rw [hsub] <;> rfl
+        have h0 := (hj.sEvictStale c.id wk hev).2.1
+        have : 0 < occ b c.id := by simp [occ, WPc.freshId?, hw]
+        omega
+      · exact hE' e' now hk' hev'
+    case del k0 hh e0 hw hk0 hs =>
+      rw [hs, AMap.get?_del] at hk'
+      split at hk'
+      · cases hk'
+      · exact hE' e' now hk' hev'
+    case evict c inc s id wk hw hs =>
+      rw [hs, AMap.get?_del] at hk'
+      split at hk'
+      · cases hk'
+      · exact hE' e' now hk' hev'
+    case sweep v now1 sh rest id wk hw hm hs => exact absurd rfl (ha v)
+    case mark i k0 e0 hpc hk0 hs =>
+      rw [hs, AMap.get?_set] at hk'
+      split at hk'
+      · rename_i hkk
+        cases hk'
+        subst hkk
+        exact hE' e0 now hk0 hev'
+      · exact hE' e' now hk' hev'
+    case upsert i k0 v w ttl rm e0 exp hpc hk0 hx hs =>
+      rw [hs, AMap.get?_set] at hk'
+      split at hk'
+      · rename_i hkk
+        cases hk'
+        subst hkk
+        exfalso
+        obtain ⟨t, hxt, hgt⟩ := hE e0 now hk0 hev'
+        have := hlive e0 t hk0 hxt
+        omega
+      · exact hE' e' now hk' hev'
+    case clear i hpc hs => rw [hs] at hk'; cases hk'
+  · obtain ⟨v, rfl⟩ := swB_is_sweeper ha
+    have hact := swB_sweeper_step h
+    intro e' now' hk' hev'
+    cases hsw : b.sw with
+    | begin =>
+      obtain ⟨_, rfl⟩ := swB_begin_spec hsw hact
+      rw [eview_none (by simp)] at hev'; cases hev'
+    | fin =>
+      have := swB_fin_spec hsw hact
+      subst this
+      rw [eview_none rfl] at hev'; cases hev'
+    | entry now sh rest =>
+      obtain ⟨id, ei, _, hf, ⟨_, rfl⟩ | ⟨_, rfl⟩⟩ := swB_entry_spec hsw hact
+      · rw [eview_none rfl] at hev'; cases hev'
+      · rw [eview_none (by simp)] at hev'; cases hev'
+    | store now sh rest id wk =>
+      obtain ⟨_, rfl⟩ := swB_store_spec hsw hact
+      rw [eview_none (by simp)] at hev'; cases hev'
+    | sub now sh rest id wk =>
+      obtain ⟨_, hb'⟩ := swB_sub_spec hsw hact
+      have hst : b'.g.store = b.g.store := by rw [hb']
+      have hsw' : b'.sw = .store now sh rest id wk := by rw [hb']
+      rw [hst] at hk'
+      refine hE' e' now' hk' ?_
+      obtain ⟨sh1, rest1, wk1, hh | hh⟩ := eview_some.mp hev'
+      · rw [hsw'] at hh; cases hh
+      · rw [hsw'] at hh
+        injection hh with h1 h2 h3 h4 h5
+        subst h1 h4
+        exact eview_some.mpr ⟨sh, rest, wk, Or.inl hsw⟩
+    | kwRemove now sh rest id =>
+      rcases swB_kwRemove_spec hsw hact with ⟨wk, ⟨hg, hu⟩, hb'⟩ | ⟨_, rfl⟩
+      · have hst : b'.g.store = b.g.store := by rw [hb']
+        have hsw' : b'.sw = .sub now sh rest id wk := by rw [hb']
+        have hnow : b'.g.now = b.g.now := by rw [hb']
+        rw [hst] at hk'
+        obtain ⟨sh1, rest1, wk1, hh | hh⟩ := eview_some.mp hev'
+        · rw [hsw'] at hh
+          injection hh with h1 h2 h3 h4 h5
+          subst h1 h4
+          have hkey := charged_key hj hk' hg
+          rw [hnow]
+          exact (unexpiredWithId_eq_false_iff _ _ _).mp hu e' (by rw [hkey]; exact hk') rfl
+        · rw [hsw'] at hh; cases hh
+      · rw [eview_none (by simp)] at hev'; cases hev'
+
+/-- … hence no sweeper action takes a live entry of `k` away -/
+theorem evinv_sweeper_keeps {b b' : BState} {v : Option Nat} {k : Nat} {e : Entry} (hE : EvInv b k) (hlive : LiveK k b)
+    (hk : b.g.store.get? k = some e) (heff : StoreEff b (.sweeper v) b') : b'.g.store.get? k = some e := by
+  cases heff
+  case same hs => rw [hs]; exact hk
+  case sweep now sh rest id wk hsw hm hs =>
+    rw [hs, AMap.get?_del]
+    split
+    · rename_i hkk
+      exfalso
+      obtain ⟨en, hen, hid⟩ := hm
+      rw [hkk, hk] at hen
+      cases hen
+      obtain ⟨t, hx, hgt⟩ := hE e now hk (eview_some.mpr ⟨sh, rest, wk, by rw [hid]; exact Or.inr hsw⟩)
+      have := hlive e t hk hx
+      omega
+    · exact hk
+
+/-! ## 7  puts, value-carrying upserts and deletes of a key under way -/
+
+/-- a put of `k` or a `Delete(k)` -/
+def _root_.Cached.Cmd.danger (k : Nat) : Cmd → Bool
+  | .put _ _ _ k' _ => k' == k
+  | .putTtl _ _ _ k' _ _ => k' == k
+  | .delete k' => k' == k
+  | _ => false
+
+/-- a put, a delete or a VALUE-carrying `put_or_update` of `k` -/
+def Req.danger (k : Nat) : Req → Bool
+  | .putW k' _ _ _ => k' == k
+  | .delete k' => k' == k
+  | .upsert k' (some _) _ _ _ => k' == k
+  | _ => false
+
+/-- the client stands inside a put / delete / value-carrying `put_or_update` of `k`, before the point at which that
+    call has written the store for the last time -/
+def CPc.danger (k : Nat) : CPc → Bool
+  | .start r => r.danger k
+  | .putPresent k' _ _ _ | .idNext k' _ _ _ => k' == k
+  | .send cmd => cmd.danger k
+  | .delMark k' => k' == k
+  | .upUpdate k' (some _) _ _ _ => k' == k
+  | _ => false
+
+/-- the worker is applying a put of `k` (up to and including `store.put`) or stands at the `store.remove` of a `Delete(k)` -/
+def WPc.danger (k : Nat) : WPc → Bool
+  | .present c | .space0 c | .sampleInit c _ _ | .evRemove c _ _ _ | .evSub c _ _ _ _ | .evStore c _ _ _ _
+  | .evSpace c _ _ | .fill c _ _ _ | .emptySpace c | .insert c | .add c | .storePut c => c.k == k
+  | .delStore k' _ => k' == k
+  | _ => false
+
+/-- **nothing that can overwrite, hide or delete the entry of `k` is under way** -/
+structure Safe (k : Nat) (b : BState) : Prop where
+  cl : ∀ (i : Nat) (pc : CPc), b.cl[i]? = some pc → pc.danger k = false
+  queue : ∀ p ∈ b.g.queue, p.1.danger k = false
+  w : b.w.danger k = false
+
+theorem danger_cmdOfPut (k : Nat) (c : PutCmd) : (cmdOfPut c).danger k = (c.k == k) := by
+  unfold cmdOfPut; split <;> rfl
+
+/-- a client action from a position that is not dangerous leads to one that is not -/
+theorem pcstep_danger {b b' : BState} {i : Nat} {pc pc' : CPc} {k : Nat} (h : PcStep b b' i pc pc')
+    (hd : pc.danger k = false) : pc'.danger k = false := by
+  cases h
+  case idNext k' v w ttl _ => cases ttl <;> simpa [CPc.danger, Cmd.danger] using hd
+  case upAbsentPut k' v w ttl rm val weight _ hv _ _ => subst hv; simpa [CPc.danger] using hd
+  case startUpsert k' v w ttl rm => cases v <;> simpa [CPc.danger, Req.danger] using hd
+  all_goals first
+    | rfl
+    | simpa [CPc.danger, Req.danger, Cmd.danger] using hd
+
+/-- the worker never turns dangerous for `k` except by taking a dangerous command from the queue -/
+theorem wtrans_danger {b b' : BState} {k : Nat} (h : WTrans b b') (hw : b.w.danger k = false)
+    (hq : ∀ p ∈ b.g.queue, p.1.danger k = false) : b'.w.danger k = false := by
+  cases h
+  case recvPut c q hw' hq' =>
+    have := hq (cmdOfPut c, c.h) (by rw [hq']; exact List.mem_cons_self)
+    rw [danger_cmdOfPut] at this
+    exact this
+  case recvDelete k0 hh q hw' hq' =>
+    exact hq (.delete k0, hh) (by rw [hq']; exact List.mem_cons_self)
+  all_goals first
+    | rfl
+    | (rw [‹b.w = _›] at hw; exact hw)
+
+theorem safe_step {b b' : BState} {a : Act} {o o' : Oracle} {k : Nat} (hs : Safe k b) (hns : NoShut b)
+    (h : stepB b a o = .ok (b', o')) (ha : ∀ i r, a = .issue i r → r.danger k = false) : Safe k b' := by
+  cases stepB_bact h with
+  | issue i r hidle =>
+    refine ⟨?_, hs.queue, hs.w⟩
+    intro j pc hj
+    rcases getElem?_set_cases hj with ⟨_, rfl⟩ | ⟨_, hj⟩
+    · exact ha i r rfl
+    · exact hs.cl j pc hj
+  | client i _ hc =>
+    obtain ⟨pc, pc', hpc, hf, hq, hsp, hstep, hres, hnid⟩ := cact_frame hc hns.flag (fun pc hpc => hns.cl i pc hpc)
+    refine ⟨?_, ?_, by rw [hf.w]; exact hs.w⟩
+    · intro j pcj hj
+      rw [hf.cl] at hj
+      rcases getElem?_set_cases hj with ⟨_, rfl⟩ | ⟨_, hj⟩
+      · exact pcstep_danger hstep (hs.cl i pc hpc)
+      · exact hs.cl j pcj hj
+    · intro p hp
+      cases hq with
+      | none hq _ => rw [hq] at hp; exact hs.queue p hp
+      | spot st hq _ _ => rw [hq] at hp; exact hs.queue p hp
+      | send cmd he _ hq _ =>
+        rw [hq] at hp
+        rcases List.mem_append.mp hp with hp | hp
+        · exact hs.queue p hp
+        · simp only [List.mem_singleton] at hp
+          subst hp he
+          exact hs.cl i _ hpc
+  | worker _ hw =>
+    exact ⟨by rw [(wtrans_cl hw).1]; exact hs.cl, fun p hp => hs.queue p ((wtrans_prov hw).1 p hp),
+      wtrans_danger hw hs.w hs.queue⟩
+  | sweeper v _ hsw =>
+    obtain ⟨h1, h2, h3, _, _, _⟩ := strans_frame hsw
+    exact ⟨by rw [h2]; exact hs.cl, by rw [h3]; exact hs.queue, by rw [h1]; exact hs.w⟩
+  | consumer g' hg =>
+    exact ⟨hs.cl, by show ∀ p ∈ g'.queue, _; rw [hg]; exact hs.queue, hs.w⟩
+  | advance d => exact ⟨hs.cl, hs.queue, hs.w⟩
+
+/-- **the value `v` stands under `k`, not hidden, and nothing that could change that is under way** -/
+def Kept (k v : Nat) (b : BState) : Prop :=
+  Safe k b ∧ EvInv b k ∧ ∃ e, b.g.store.get? k = some e ∧ e.value = v ∧ e.soft = false
+
+/-- **persistence**: one action of any thread, taken in a state in which the entry of `k` is live and the worker is not
+    inside the eviction loop, that does not begin a put / delete / value-carrying upsert of `k`, keeps `Kept` -/
+theorem kept_step {cfg : Cfg} {now0 : Nat} {seeds : List Nat} {clients : Nat} {b b' : BState} {a : Act} {o o' : Oracle}
+    {k v : Nat} (hr : Reach cfg now0 seeds clients b) (hk : Kept k v b) (hns : NoShut b) (hns' : NoShut b')
+    (hev : b.w.evicting = false) (hlive : LiveK k b) (h : stepB b a o = .ok (b', o'))
+    (ha : ∀ i r, a = .issue i r → r.danger k = false) : Kept k v b' := by
+  obtain ⟨hs, hE, e, hke, hv, hsoft⟩ := hk
+  refine ⟨safe_step hs hns h ha, evinv_step_live hr hE hlive hns'.flag h, ?_⟩
+  have heff := stepB_storeEff h
+  cases heff
+  case same hst => exact ⟨e, by rw [hst]; exact hke, hv, hsoft⟩
+  case put c exp hw hx hwr hst =>
+    have hck : c.k ≠ k := by
+      intro e0
+      have := hs.w
+      rw [hw] at this
+      simp [WPc.danger, e0] at this
+    exact ⟨e, by rw [hst, AMap.get?_set_other _ _ hck]; exact hke, hv, hsoft⟩
+  case del k0 hh e0 hw hk0 hst =>
+    have hck : k0 ≠ k := by
+      intro e1
+      have := hs.w
+      rw [hw] at this
+      simp [WPc.danger, e1] at this
+    exact ⟨e, by rw [hst, AMap.get?_del_other _ hck]; exact hke, hv, hsoft⟩
+  case evict c inc s id wk hw hst => rw [hw] at hev; cases hev
+  case sweep vv now sh rest id wk hsw hm hst =>
+    exact ⟨e, evinv_sweeper_keeps hE hlive hke (.sweep vv now sh rest id wk _ hsw hst hm), hv, hsoft⟩
+  case mark i k0 e0 hpc hk0 hst =>
+    have hck : k0 ≠ k := by
+      intro e1
+      have := hs.cl i _ hpc
+      simp [CPc.danger, e1] at this
+    exact ⟨e, by rw [hst, AMap.get?_set_other _ _ hck]; exact hke, hv, hsoft⟩
+  case upsert i k0 v0 w ttl rm e0 exp hpc hk0 hx hst =>
+    by_cases hck : k0 = k
+    · subst hck
+      have hv0 : v0 = none := by
+        cases v0 with
+        | none => rfl
+        | some x =>
+          have := hs.cl i _ hpc
+          simp [CPc.danger] at this
+      subst hv0
+      rw [hke] at hk0; cases hk0
+      exact ⟨{ e with expiry := exp, value := (none : Option Nat).getD e.value }, by rw [hst, AMap.get?_set_same], hv, hsoft⟩
+    · exact ⟨e, by rw [hst, AMap.get?_set_other _ _ hck]; exact hke, hv, hsoft⟩
+  case clear i hpc hst =>
+    have := hns.cl i _ hpc
+    simp [CPc.shutPos, CPc.afterCas] at this
+
+
+/-! ## 5  a dead worker; a deletion mark has its `Delete` under way -/
+
+/-- the worker's mode says `dead` exactly when its thread stands at `dead` -/
+def DeadInv (b : BState) : Prop := b.g.worker = .dead ↔ b.w = .dead
+
+theorem deadInv_step {b b' : BState} {a : Act} {o o' : Oracle} (hi : DeadInv b) (hns : NoShut b)
+    (h : stepB b a o = .ok (b', o')) : DeadInv b' := by
+  cases stepB_bact h with
+  | issue i r hidle => exact hi
+  | client i _ hc =>
+    obtain ⟨pc, pc', hpc, hf, hq, hsp, hstep, hres, hnid⟩ := cact_frame hc hns.flag (fun pc hpc => hns.cl i pc hpc)
+    unfold DeadInv
+    rw [hf.worker, hf.w]
+    exact hi
+  | worker _ hw =>
+    unfold DeadInv at hi ⊢
+    have hnd : b.w ≠ .dead := by cases hw <;> simp_all
+    have hgd : b.g.worker ≠ .dead := fun e => hnd (hi.mp e)
+    cases hw <;> simp_all [finishCmd, rejectCmd, ttlPut, ttlDelete]
+  | sweeper v _ hs =>
+    obtain ⟨h1, _, _, _, _, _⟩ := strans_frame hs
+    have : b'.g.worker = b.g.worker := by cases hs <;> simp
+    unfold DeadInv
+    rw [this, h1]
+    exact hi
+  | consumer g' hg =>
+    unfold DeadInv
+    show g'.worker = .dead ↔ _
+    rw [hg]; exact hi
+  | advance d => exact hi
+
+theorem deadInv_init (cfg : Cfg) (now : Nat) (seeds : List Nat) (clients : Nat) (sm : List (Nat × Nat)) :
+    DeadInv { BState.init cfg now seeds clients with storeShard := sm } := by
+  simp [DeadInv, BState.init, State.init]
+
+/-- a `Delete(k)` is on its way to the worker's `store.remove` -/
+def DelItem (k : Nat) (b : BState) : Prop :=
+  (∃ i : Nat, b.cl[i]? = some (CPc.send (Cmd.delete k))) ∨ (∃ h, (Cmd.delete k, h) ∈ b.g.queue) ∨ (∃ h, b.w = .delStore k h)
+
+/-- **an entry carrying the deletion mark has its `Delete` command under way — unless the worker has died** -/
+def SoftInv (k : Nat) (b : BState) : Prop :=
+  ∀ e, b.g.store.get? k = some e → e.soft = true → DelItem k b ∨ b.w = .dead
+
+/-- a `Delete(k)` under way stays under way, up to the worker's `store.remove` -/
+theorem delItem_step {b b' : BState} {a : Act} {o o' : Oracle} {k : Nat} (hd : DelItem k b ∨ b.w = .dead)
+    (hdi : DeadInv b) (hns : NoShut b) (h : stepB b a o = .ok (b', o')) :
+    (DelItem k b' ∨ b'.w = .dead) ∨ (a = .worker ∧ ∃ hh, b.w = .delStore k hh) := by
+  rcases hd with hd | hd
+  rotate_left
+  · exact Or.inl (Or.inr (dead_step h hd))
+  cases stepB_bact h with
+  | issue i r hidle =>
+    refine Or.inl (Or.inl ?_)
+    rcases hd with ⟨j, hj⟩ | hd | hd
+    · refine Or.inl ⟨j, ?_⟩
+      have hne : j ≠ i := by intro e; subst e; rw [hidle] at hj; cases hj
+      show (b.cl.set i _)[j]? = _
+      rw [List.getElem?_set_ne (Ne.symm hne)]; exact hj
+    · exact Or.inr (Or.inl hd)
+    · exact Or.inr (Or.inr hd)
+  | client i _ hc =>
+    obtain ⟨pc, pc', hpc, hf, hq, hsp, hstep, hres, hnid⟩ := cact_frame hc hns.flag (fun pc hpc => hns.cl i pc hpc)
+    have hqsub : ∀ p ∈ b.g.queue, p ∈ b'.g.queue := by
+      intro p hp
+      cases hq with
+      | none hq _ => rw [hq]; exact hp
+      | spot st hq _ _ => rw [hq]; exact hp
+      | send cmd _ _ hq _ => rw [hq]; exact List.mem_append_left _ hp
+    rcases hd with ⟨j, hj⟩ | ⟨hh, hd⟩ | ⟨hh, hd⟩
+    · by_cases hji : j = i
+      · subst hji
+        rw [hpc] at hj; cases hj
+        cases hstep
+        case sendDead =>
+          have hwd : b.g.worker = .dead := by assumption
+          exact Or.inl (Or.inr (by rw [hf.w]; exact hdi.mp hwd))
+        case sendOk =>
+          have hq' : b'.g.queue = b.g.queue ++ [(Cmd.delete k, some b.g.acks.length)] := by assumption
+          exact Or.inl (Or.inl (Or.inr (Or.inl ⟨_, by rw [hq']; exact List.mem_append_right _ (List.mem_singleton.mpr rfl)⟩)))
+        all_goals
+          exfalso
+          have ht : ∃ x, (CPc.send (Cmd.delete k)).tail? = some x := ⟨_, by assumption⟩
+          simp [CPc.tail?] at ht
+      · refine Or.inl (Or.inl (Or.inl ⟨j, ?_⟩))
+        rw [hf.cl, List.getElem?_set_ne (Ne.symm hji)]; exact hj
+    · exact Or.inl (Or.inl (Or.inr (Or.inl ⟨hh, hqsub _ hd⟩)))
+    · exact Or.inl (Or.inl (Or.inr (Or.inr ⟨hh, by rw [hf.w]; exact hd⟩)))
+  | worker _ hw =>
+    rcases hd with ⟨j, hj⟩ | ⟨hh, hd⟩ | ⟨hh, hd⟩
+    · exact Or.inl (Or.inl (Or.inl ⟨j, by rw [(wtrans_cl hw).1]; exact hj⟩))
+    · -- the command waits in the queue: it stays, or the worker takes it, or the worker dies
+      by_cases hrecv : b.w = .recv
+      · cases hw
+        case recvPut c q hw' hq' =>
+          rw [hq'] at hd
+          rcases List.mem_cons.mp hd with e | hd
+          · exfalso; injection e with e1 _; unfold cmdOfPut at e1; split at e1 <;> cases e1
+          · exact Or.inl (Or.inl (Or.inr (Or.inl ⟨hh, hd⟩)))
+        case recvUpdate id w h2 q hw' hq' =>
+          rw [hq'] at hd
+          rcases List.mem_cons.mp hd with e | hd
+          · cases e
+          · exact Or.inl (Or.inl (Or.inr (Or.inl ⟨hh, hd⟩)))
+        case recvDelete k0 h2 q hw' hq' =>
+          rw [hq'] at hd
+          rcases List.mem_cons.mp hd with e | hd
+          · cases e; exact Or.inl (Or.inl (Or.inr (Or.inr ⟨_, rfl⟩)))
+          · exact Or.inl (Or.inl (Or.inr (Or.inl ⟨hh, hd⟩)))
+        case recvShutdown h2 q hw' hq' =>
+          exact absurd rfl (hns.queue (.shutdown, h2) (by rw [hq']; exact List.mem_cons_self))
+        all_goals (rw [hrecv] at *; simp_all)
+      · cases hw
+        case recvPut hw' _ => exact absurd hw' hrecv
+        case recvUpdate hw' _ => exact absurd hw' hrecv
+        case recvDelete hw' _ => exact absurd hw' hrecv
+        case recvShutdown hw' _ => exact absurd hw' hrecv
+        case drain hw' _ => exact absurd hw' hns.w
+        case storePutPanic => exact Or.inl (Or.inr rfl)
+        case updatePanic => exact Or.inl (Or.inr rfl)
+        all_goals exact Or.inl (Or.inl (Or.inr (Or.inl ⟨hh, by simpa [finishCmd, rejectCmd, ttlPut, ttlDelete] using hd⟩)))
+    · exact Or.inr ⟨rfl, hh, hd⟩
+  | sweeper v _ hs =>
+    obtain ⟨h1, h2, h3, _, _, _⟩ := strans_frame hs
+    refine Or.inl (Or.inl ?_)
+    unfold DelItem
+    rw [h1, h2, h3]; exact hd
+  | consumer g' hg =>
+    refine Or.inl (Or.inl ?_)
+    unfold DelItem at hd ⊢
+    show _ ∨ (∃ h, _ ∈ g'.queue) ∨ _
+    rw [hg]; exact hd
+  | advance d => exact Or.inl (Or.inl (by unfold DelItem at hd ⊢; exact hd))
+
+
+/-- the worker's `store.remove` of a `Delete(k)` leaves no entry under `k` -/
+theorem delStore_removes {b b' : BState} {o o' : Oracle} {k : Nat} {hh : Option Nat} (hw : b.w = .delStore k hh)
+    (h : stepB b .worker o = .ok (b', o')) : b'.g.store.get? k = none := by
+  simp only [stepB] at h
+  obtain ⟨_, _, ⟨hn, rfl⟩ | ⟨e, _, rfl⟩⟩ := ent_workerAct_delStore hw h
+  · exact hn
+  · simp
+
+theorem softInv_step {b b' : BState} {a : Act} {o o' : Oracle} {k : Nat} (hi : SoftInv k b) (hdi : DeadInv b)
+    (hns : NoShut b) (h : stepB b a o = .ok (b', o')) : SoftInv k b' := by
+  intro e' hk' hsoft'
+  -- the general argument: the marked entry stood in `b` already
+  have gen : (∃ e, b.g.store.get? k = some e ∧ e.soft = true) → DelItem k b' ∨ b'.w = .dead := by
+    rintro ⟨e, hk, hsoft⟩
+    rcases delItem_step (hi e hk hsoft) hdi hns h with hd | ⟨rfl, hh, hw⟩
+    · exact hd
+    · rw [delStore_removes hw h] at hk'; cases hk'
+  have heff := stepB_storeEff h
+  cases heff
+  case same hst => exact gen ⟨e', by rw [← hst]; exact hk', hsoft'⟩
+  case put c exp hw hx hwr hst =>
+    rw [hst, AMap.get?_set] at hk'
+    split at hk'
+    · cases hk'; cases hsoft'
+    · exact gen ⟨e', hk', hsoft'⟩
+  case del k0 hh e0 hw hk0 hst =>
+    rw [hst, AMap.get?_del] at hk'
+    split at hk'
+    · cases hk'
+    · exact gen ⟨e', hk', hsoft'⟩
+  case evict c inc s id wk hw hst =>
+    rw [hst, AMap.get?_del] at hk'
+    split at hk'
+    · cases hk'
+    · exact gen ⟨e', hk', hsoft'⟩
+  case sweep v now sh rest id wk hsw hm hst =>
+    rw [hst, AMap.get?_del] at hk'
+    split at hk'
+    · cases hk'
+    · exact gen ⟨e', hk', hsoft'⟩
+  case mark i k0 e0 hpc hk0 hst =>
+    rw [hst, AMap.get?_set] at hk'
+    split at hk'
+    · rename_i hkk
+      subst hkk
+      cases stepB_bact h with
+      | client _ _ hc =>
+        obtain ⟨pc, pc', hpc', hf, hq, hsp, hstep, hres, hnid⟩ := cact_frame hc hns.flag (fun pc hpc => hns.cl i pc hpc)
+        rw [hpc] at hpc'; cases hpc'
+        cases hstep
+        refine Or.inl (Or.inl ⟨i, ?_⟩)
+        rw [hf.cl]
+        exact List.getElem?_set_self (by
+          have := hpc
+          exact (List.getElem?_eq_some_iff.mp this).1)
+    · exact gen ⟨e', hk', hsoft'⟩
+  case upsert i k0 v w ttl rm e0 exp hpc hk0 hx hst =>
+    rw [hst, AMap.get?_set] at hk'
+    split at hk'
+    · rename_i hkk
+      subst hkk
+      cases hk'
+      exact gen ⟨e0, hk0, hsoft'⟩
+    · exact gen ⟨e', hk', hsoft'⟩
+  case clear i hpc hst => rw [hst] at hk'; cases hk'
+
+theorem softInv_init (cfg : Cfg) (now : Nat) (seeds : List Nat) (clients : Nat) (sm : List (Nat × Nat)) (k : Nat) :
+    SoftInv k { BState.init cfg now seeds clients with storeShard := sm } := by
+  intro e hk; simp [BState.init, State.init] at hk
 
 end B
 end Cached
